@@ -748,4 +748,1521 @@ theorem mask_idempotent_on_masked_eq_bare_partial (K K' ds w1 w2 pre post mask :
     hpreq hpostq (fun c hc => lemma_bare_not_quote c (hmaskV c hc)) hlast hu
     (fun k hk hne => ⟨hother k hk hne, hother k hk hne⟩)
 
+/-! ### the other renderings: one substitution each, full generality
+
+Each `mask_rendering_<r>_partial` below is the statement about the *one* `re.sub` that is responsible for the
+rendering `r`, at full generality in key, spelling, digit suffix, whitespace, quotes, secret (over the value
+class of the generated template), mask and surroundings.  `_partial` = *one pattern only*: what is missing with
+respect to `mask_password` as a whole is that the other eleven patterns of the key and the patterns of the other
+keys present leave the message alone (they do not in the listed classes KF_C04_WILDCARD / KF_C04_FLAGVALUE /
+KF_C04_NESTED).  For the bare `key=value` and the quoted `key="value"` renderings that lift is done
+(`mask_rendering_eq_bare_partial`, `mask_rendering_eq_quoted_partial`); for the others the composition is covered by
+the correspondence and the failing-input search only. -/
+
+/-- `key = 'value'` for any quote class `qc` and value class `vc` that excludes the closing quote -/
+theorem lemma_matchPat_eq_q (qc vc : Cls) (K K' ds w1 w2 secret post : List Char) (q1 q2 : Char)
+    (hK : keyMatch K K' = true) (hds : ∀ c ∈ ds, digitC.test c = true) (hw1 : ∀ c ∈ w1, wsC.test c = true)
+    (hw2 : ∀ c ∈ w2, wsC.test c = true) (hq1 : qc.test q1 = true) (hq1ws : wsC.test q1 = false)
+    (hq2 : qc.test q2 = true) (hq2v : vc.test q2 = false) (hsecV : ∀ c ∈ secret, vc.test c = true) :
+    matchPat ((⟨[.key, star digitC, star wsC, one eqC, star wsC, one qc], [star vc], [one qc]⟩ : Template).inst
+        (keyItems K))
+      ((K' ++ (ds ++ (w1 ++ ('=' :: (w2 ++ [q1]))))) ++ (secret ++ ([q2] ++ post))) =
+      some ⟨(secret ++ ([q2] ++ post)).length, ([q2] ++ post).length, post.length⟩ := by
+  unfold matchPat
+  simp only [Template.inst, instItems, star, one]
+  have e : (K' ++ (ds ++ (w1 ++ ('=' :: (w2 ++ [q1]))))) ++ (secret ++ ([q2] ++ post))
+      = K' ++ (ds ++ (w1 ++ ('=' :: (w2 ++ (q1 :: (secret ++ (q2 :: post))))))) := by simp
+  rw [e, matchSeq_keyItems, keyPrefix_of_keyMatch K K' _ hK, if_pos rfl]
+  rw [← keyMatch_length K K' hK, List.drop_left]
+  apply matchSeq_cons_greedy _ _ _ ds _ _ rfl (Nat.zero_le _) hds
+  · apply head_append_of_all _ w1 _ (fun c hc => lemma_ws_not_digit c (hw1 c hc))
+    intro c hc; simp at hc; subst hc; decide
+  apply matchSeq_cons_greedy _ _ _ w1 _ _ rfl (Nat.zero_le _) hw1
+  · intro c hc; simp at hc; subst hc; decide
+  rw [matchSeq_one]
+  simp only [show eqC.test '=' = true by decide, if_true]
+  apply matchSeq_cons_greedy _ _ _ w2 _ _ rfl (Nat.zero_le _) hw2
+  · intro c hc; simp at hc; subst hc; exact hq1ws
+  rw [matchSeq_one]
+  simp only [hq1, if_true]
+  -- the value and the closing quote
+  show matchSeq [⟨vc, 0, none⟩] _ (secret ++ (q2 :: post)) = _
+  apply matchSeq_cons_greedy _ _ _ secret (q2 :: post) _ rfl (Nat.zero_le _) hsecV
+  · intro c hc; simp at hc; subst hc; exact hq2v
+  show matchSeq [⟨qc, 1, some 1⟩] _ (q2 :: post) = _
+  rw [matchSeq_one]
+  simp [hq2, matchSeq]
+
+theorem lemma_sub_eq_q (qc vc : Cls) (rep : List RepTok) (K K' ds w1 w2 secret pre post mask : List Char) (q1 q2 : Char)
+    (hK : keyMatch K K' = true) (hds : ∀ c ∈ ds, digitC.test c = true) (hw1 : ∀ c ∈ w1, wsC.test c = true)
+    (hw2 : ∀ c ∈ w2, wsC.test c = true) (hq1 : qc.test q1 = true) (hq1ws : wsC.test q1 = false)
+    (hq2 : qc.test q2 = true) (hq2v : vc.test q2 = false) (hsecV : ∀ c ∈ secret, vc.test c = true)
+    (hpre : ∀ j, j < pre.length → keyPrefix K (pre.drop j ++
+      ((K' ++ (ds ++ (w1 ++ ('=' :: (w2 ++ [q1]))))) ++ (secret ++ ([q2] ++ post)))) = false)
+    (hpostK : occursCI K post = false) :
+    subPat ((⟨[.key, star digitC, star wsC, one eqC, star wsC, one qc], [star vc], [one qc]⟩ : Template).inst
+        (keyItems K)) rep mask
+      (pre ++ ((K' ++ (ds ++ (w1 ++ ('=' :: (w2 ++ [q1]))))) ++ (secret ++ ([q2] ++ post))))
+      = pre ++ (expand rep (K' ++ (ds ++ (w1 ++ ('=' :: (w2 ++ [q1]))))) [q2] mask ++ post) := by
+  apply subPat_rendering
+  · simp
+  · intro j hj
+    unfold matchPat
+    simp only [Template.inst, instItems]
+    rw [matchSeq_keyItems, hpre j hj]
+    simp
+  · exact lemma_matchPat_eq_q qc vc K K' ds w1 w2 secret post q1 q2 hK hds hw1 hw2 hq1 hq1ws hq2 hq2v hsecV
+  · exact subPat_noKey _ rep K mask post (by simp) hpostK
+
+theorem lemma_quote_not_ws (c : Char) (h : quoteC.test c = true) : wsC.test c = false := by
+  cases hw : wsC.test c with
+  | false => rfl
+  | true => rw [lemma_ws_not_quote c hw] at h; cases h
+
+theorem lemma_quote_not_nquote (c : Char) (h : quoteC.test c = true) : nquoteC.test c = false := by
+  simp only [quoteC, nquoteC, cls, ncls, Cls.test] at h ⊢
+  simp at h ⊢
+  simpa using h
+
+/-- **Rendering `key = "value"` / `key = 'value'`, the pattern `_FORMAT_PATTERNS_2[0]`.**  For every key, every
+spelling of it the pattern accepts, digit suffix, whitespace around `=`, opening and closing quote (either kind,
+not necessarily the same), every secret over the value class of the generated template (`[^"']*`: spaces,
+Unicode whitespace, `=`, `<`, regex metacharacters, the empty secret included), every mask, every prefix in
+which the key does not start before the rendering and every suffix that does not contain the key: this one
+`re.sub` replaces exactly the value by the mask (full generality for the one substitution; the other patterns
+and keys are not part of this statement). -/
+theorem sub_rendering_eq_quoted (K K' ds w1 w2 secret pre post mask : List Char) (q1 q2 : Char)
+    (hK : keyMatch K K' = true) (hds : ∀ c ∈ ds, digitC.test c = true) (hw1 : ∀ c ∈ w1, wsC.test c = true)
+    (hw2 : ∀ c ∈ w2, wsC.test c = true) (hq1 : quoteC.test q1 = true) (hq2 : quoteC.test q2 = true)
+    (hsecV : ∀ c ∈ secret, nquoteC.test c = true)
+    (hpre : ∀ j, j < pre.length → keyPrefix K (pre.drop j ++
+      (K' ++ ds ++ w1 ++ ['='] ++ w2 ++ [q1] ++ secret ++ [q2] ++ post)) = false)
+    (hpostK : occursCI K post = false) :
+    subPat (tplEqQuoted.inst (keyItems K)) rep2 mask
+      (pre ++ (K' ++ ds ++ w1 ++ ['='] ++ w2 ++ [q1] ++ secret ++ [q2] ++ post))
+      = pre ++ (K' ++ ds ++ w1 ++ ['='] ++ w2 ++ [q1] ++ mask ++ [q2] ++ post) := by
+  have e1 : K' ++ ds ++ w1 ++ ['='] ++ w2 ++ [q1] ++ secret ++ [q2] ++ post
+      = (K' ++ (ds ++ (w1 ++ ('=' :: (w2 ++ [q1]))))) ++ (secret ++ ([q2] ++ post)) := by simp
+  have h := lemma_sub_eq_q quoteC nquoteC rep2 K K' ds w1 w2 secret pre post mask q1 q2 hK hds hw1 hw2 hq1
+    (lemma_quote_not_ws q1 hq1) hq2 (lemma_quote_not_nquote q2 hq2) hsecV (by rw [← e1]; exact hpre) hpostK
+  rw [e1]
+  simp only [tplEqQuoted]
+  rw [h]
+  simp [rep2, expand]
+
+
+/-- an item with an exact count `{m,m}` on `r ++ t`, `|r| = m`, `r` in the class -/
+theorem lemma_matchSeq_exact {α} (it : Item) (rest : List Item) (k : List Char → Option α) (r t : List Char)
+    (v : α) (m : Nat) (hhi : it.hi = some m) (hlo : it.lo ≤ m) (hlen : r.length = m)
+    (hr : ∀ c ∈ r, it.cls.test c = true) (hk : matchSeq rest k t = some v) :
+    matchSeq (it :: rest) k (r ++ t) = some v := by
+  simp only [matchSeq]
+  have hrun : it.run (r ++ t) = m := by
+    unfold Item.run
+    simp only [hhi]
+    have : r.length ≤ ((r ++ t).takeWhile it.cls.test).length := by
+      have hp : (r ++ t).takeWhile it.cls.test = r ++ t.takeWhile it.cls.test := by
+        clear hlen hk
+        induction r with
+        | nil => rfl
+        | cons a r ih =>
+          simp only [List.cons_append, List.takeWhile, hr a (by simp)]
+          rw [ih (fun c hc => hr c (by simp [hc]))]
+      rw [hp]; simp
+    omega
+  rw [hrun]
+  apply tryDown_first _ _ _ _ _ hlo
+  rw [← hlen]; simpa using hk
+
+/-- a pattern that starts with an exact-count item followed by the key cannot match where the key does not
+    follow after that many characters -/
+theorem lemma_matchSeq_fixed_key_none {α} (it : Item) (rest : List Item) (k : List Char → Option α)
+    (K s : List Char) (m : Nat) (hhi : it.hi = some m) (hlo : it.lo = m)
+    (hk : keyPrefix K (s.drop m) = false) : matchSeq (it :: (keyItems K ++ rest)) k s = none := by
+  simp only [matchSeq]
+  apply tryDown_none
+  intro j h1 h2
+  have hle : it.run s ≤ m := by unfold Item.run; simp only [hhi]; omega
+  have : j = m := by omega
+  subst this
+  rw [matchSeq_keyItems, hk]; simp
+
+
+/-! ### `key "value"` -/
+
+theorem lemma_matchPat_key_quoted (K K' ds w1 secret post : List Char) (q1 q2 : Char)
+    (hK : keyMatch K K' = true) (hds : ∀ c ∈ ds, digitC.test c = true) (hw1 : ∀ c ∈ w1, wsC.test c = true)
+    (hw1ne : w1 ≠ []) (hq1 : quoteC.test q1 = true) (hq2 : quoteC.test q2 = true)
+    (hsecV : ∀ c ∈ secret, nquoteC.test c = true) :
+    matchPat (tplKeyQuoted.inst (keyItems K))
+      ((K' ++ (ds ++ (w1 ++ [q1]))) ++ (secret ++ ([q2] ++ post))) =
+      some ⟨(secret ++ ([q2] ++ post)).length, ([q2] ++ post).length, post.length⟩ := by
+  unfold matchPat
+  simp only [tplKeyQuoted, Template.inst, instItems, star, one, plus]
+  have e : (K' ++ (ds ++ (w1 ++ [q1]))) ++ (secret ++ ([q2] ++ post))
+      = K' ++ (ds ++ (w1 ++ (q1 :: (secret ++ (q2 :: post))))) := by simp
+  rw [e, matchSeq_keyItems, keyPrefix_of_keyMatch K K' _ hK, if_pos rfl]
+  rw [← keyMatch_length K K' hK, List.drop_left]
+  apply matchSeq_cons_greedy _ _ _ ds _ _ rfl (Nat.zero_le _) hds
+  · apply head_append_of_all _ w1 _ (fun c hc => lemma_ws_not_digit c (hw1 c hc))
+    intro c hc; simp at hc; subst hc
+    cases hd : digitC.test q1 with
+    | false => rfl
+    | true => rw [lemma_digit_not_quote q1 hd] at hq1; cases hq1
+  apply matchSeq_cons_greedy _ _ _ w1 _ _ rfl _ hw1
+  · intro c hc; simp at hc; subst hc; exact lemma_quote_not_ws q1 hq1
+  · rw [matchSeq_one]
+    simp only [hq1, if_true]
+    show matchSeq [⟨nquoteC, 0, none⟩] _ (secret ++ (q2 :: post)) = _
+    apply matchSeq_cons_greedy _ _ _ secret (q2 :: post) _ rfl (Nat.zero_le _) hsecV
+    · intro c hc; simp at hc; subst hc; exact lemma_quote_not_nquote q2 hq2
+    show matchSeq [⟨quoteC, 1, some 1⟩] _ (q2 :: post) = _
+    rw [matchSeq_one]
+    simp [hq2, matchSeq]
+  · cases w1 with
+    | nil => exact absurd rfl hw1ne
+    | cons x xs => simp
+
+/-- **Rendering `key "value"`, the pattern `_FORMAT_PATTERNS_2[3]`** (one substitution, full generality: any key,
+spelling, digit suffix, non-empty whitespace, either quote on either side, every secret over `[^"']*`) -/
+theorem mask_rendering_key_quoted_partial (K K' ds w1 secret pre post mask : List Char) (q1 q2 : Char)
+    (hK : keyMatch K K' = true) (hds : ∀ c ∈ ds, digitC.test c = true) (hw1 : ∀ c ∈ w1, wsC.test c = true)
+    (hw1ne : w1 ≠ []) (hq1 : quoteC.test q1 = true) (hq2 : quoteC.test q2 = true)
+    (hsecV : ∀ c ∈ secret, nquoteC.test c = true)
+    (hpre : ∀ j, j < pre.length → keyPrefix K (pre.drop j ++
+      (K' ++ ds ++ w1 ++ [q1] ++ secret ++ [q2] ++ post)) = false)
+    (hpostK : occursCI K post = false) :
+    subPat (tplKeyQuoted.inst (keyItems K)) rep2 mask (pre ++ (K' ++ ds ++ w1 ++ [q1] ++ secret ++ [q2] ++ post))
+      = pre ++ (K' ++ ds ++ w1 ++ [q1] ++ mask ++ [q2] ++ post) := by
+  have e1 : K' ++ ds ++ w1 ++ [q1] ++ secret ++ [q2] ++ post
+      = (K' ++ (ds ++ (w1 ++ [q1]))) ++ (secret ++ ([q2] ++ post)) := by simp
+  rw [e1]
+  rw [subPat_rendering _ rep2 mask pre (K' ++ (ds ++ (w1 ++ [q1]))) secret [q2] post]
+  · simp [rep2, expand]
+  · simp
+  · intro j hj
+    unfold matchPat
+    simp only [tplKeyQuoted, Template.inst, instItems]
+    rw [matchSeq_keyItems, ← e1, hpre j hj]
+    simp
+  · exact lemma_matchPat_key_quoted K K' ds w1 secret post q1 q2 hK hds hw1 hw1ne hq1 hq2 hsecV
+  · exact subPat_noKey tplKeyQuoted rep2 K mask post (by simp [tplKeyQuoted]) hpostK
+
+
+/-! ### `--key value` -/
+
+theorem lemma_ws_not_dashVal (c : Char) (h : wsC.test c = true) : dashValC.test c = false := by
+  simp only [dashValC, wsC, ncls, cls, Cls.test, lemma_inRanges_append] at h ⊢
+  have h' : inRanges c.toNat Gen.wsRanges = true := by simpa using h
+  simp [h']
+
+theorem lemma_dashVal_not_ws (c : Char) (h : dashValC.test c = true) : wsC.test c = false := by
+  cases hw : wsC.test c with
+  | false => rfl
+  | true => rw [lemma_ws_not_dashVal c hw] at h; cases h
+
+theorem lemma_matchPat_dashdash (K K' dd ds w1 secret w3 post : List Char)
+    (hK : keyMatch K K' = true) (hdd : ∀ c ∈ dd, dashC.test c = true) (hddlen : dd.length = 2)
+    (hds : ∀ c ∈ ds, digitC.test c = true) (hw1 : ∀ c ∈ w1, wsC.test c = true) (hw1ne : w1 ≠ [])
+    (hsec : secret ≠ []) (hsecV : ∀ c ∈ secret, dashValC.test c = true)
+    (hw3 : ∀ c ∈ w3, wsC.test c = true)
+    (hstop : ∀ c, post.head? = some c → wsC.test c = false ∧ (w3 = [] → dashValC.test c = false)) :
+    matchPat (tplDashDash.inst (keyItems K))
+      ((dd ++ (K' ++ (ds ++ w1))) ++ (secret ++ (w3 ++ post))) =
+      some ⟨(secret ++ (w3 ++ post)).length, (w3 ++ post).length, post.length⟩ := by
+  unfold matchPat
+  simp only [tplDashDash, Template.inst, instItems, star, plus, rep]
+  have e : (dd ++ (K' ++ (ds ++ w1))) ++ (secret ++ (w3 ++ post))
+      = dd ++ (K' ++ (ds ++ (w1 ++ (secret ++ (w3 ++ post))))) := by simp
+  rw [e]
+  apply lemma_matchSeq_exact _ _ _ dd _ _ 2 rfl (Nat.le_refl 2) hddlen hdd
+  rw [matchSeq_keyItems, keyPrefix_of_keyMatch K K' _ hK, if_pos rfl]
+  rw [← keyMatch_length K K' hK, List.drop_left]
+  have hsec0 : ∀ c, (secret ++ (w3 ++ post)).head? = some c → wsC.test c = false := by
+    intro c hc
+    cases secret with
+    | nil => exact absurd rfl hsec
+    | cons x xs => simp at hc; subst hc; exact lemma_dashVal_not_ws _ (hsecV _ (by simp))
+  apply matchSeq_cons_greedy _ _ _ ds _ _ rfl (Nat.zero_le _) hds
+  · intro c hc
+    cases w1 with
+    | nil => exact absurd rfl hw1ne
+    | cons x xs => simp at hc; subst hc; exact lemma_ws_not_digit _ (hw1 _ (by simp))
+  apply matchSeq_cons_greedy _ _ _ w1 _ _ rfl _ hw1 hsec0
+  · show matchSeq [⟨dashValC, 1, none⟩] _ (secret ++ (w3 ++ post)) = _
+    apply matchSeq_cons_greedy _ _ _ secret (w3 ++ post) _ rfl _ hsecV
+    · intro c hc
+      cases w3 with
+      | nil => exact (hstop c (by simpa using hc)).2 rfl
+      | cons x xs => simp at hc; subst hc; exact lemma_ws_not_dashVal _ (hw3 _ (by simp))
+    · show matchSeq [⟨wsC, 0, none⟩] _ (w3 ++ post) = _
+      apply matchSeq_cons_greedy _ _ _ w3 post _ rfl (Nat.zero_le _) hw3 (fun c hc => (hstop c hc).1)
+      simp [matchSeq]
+    · cases secret with
+      | nil => exact absurd rfl hsec
+      | cons x xs => simp
+  · cases w1 with
+    | nil => exact absurd rfl hw1ne
+    | cons x xs => simp
+
+/-- **Rendering `--key value`, the pattern `_FORMAT_PATTERNS_2[4]`** (one substitution, full generality: any key,
+spelling, digit suffix, non-empty whitespace, every non-empty secret over the value class of the generated
+template `[^'"=\s]`, trailing whitespace kept) -/
+theorem mask_rendering_dashdash_partial (K K' dd ds w1 secret w3 pre post mask : List Char)
+    (hK : keyMatch K K' = true) (hdd : ∀ c ∈ dd, dashC.test c = true) (hddlen : dd.length = 2)
+    (hds : ∀ c ∈ ds, digitC.test c = true) (hw1 : ∀ c ∈ w1, wsC.test c = true) (hw1ne : w1 ≠ [])
+    (hsec : secret ≠ []) (hsecV : ∀ c ∈ secret, dashValC.test c = true)
+    (hw3 : ∀ c ∈ w3, wsC.test c = true)
+    (hstop : ∀ c, post.head? = some c → wsC.test c = false ∧ (w3 = [] → dashValC.test c = false))
+    (hpre : ∀ j, j < pre.length → keyPrefix K ((pre.drop j ++
+      (dd ++ K' ++ ds ++ w1 ++ secret ++ w3 ++ post)).drop 2) = false)
+    (hpostK : occursCI K post = false) :
+    subPat (tplDashDash.inst (keyItems K)) rep2 mask (pre ++ (dd ++ K' ++ ds ++ w1 ++ secret ++ w3 ++ post))
+      = pre ++ (dd ++ K' ++ ds ++ w1 ++ mask ++ w3 ++ post) := by
+  have e1 : dd ++ K' ++ ds ++ w1 ++ secret ++ w3 ++ post
+      = (dd ++ (K' ++ (ds ++ w1))) ++ (secret ++ (w3 ++ post)) := by simp
+  rw [e1]
+  rw [subPat_rendering _ rep2 mask pre (dd ++ (K' ++ (ds ++ w1))) secret w3 post]
+  · simp [rep2, expand]
+  · cases secret with
+    | nil => exact absurd rfl hsec
+    | cons x xs => simp
+  · intro j hj
+    unfold matchPat
+    simp only [tplDashDash, Template.inst, instItems, rep]
+    apply lemma_matchSeq_fixed_key_none _ _ _ K _ 2 rfl rfl
+    rw [← e1]; exact hpre j hj
+  · exact lemma_matchPat_dashdash K K' dd ds w1 secret w3 post hK hdd hddlen hds hw1 hw1ne hsec hsecV hw3 hstop
+  · exact subPat_noKey tplDashDash rep2 K mask post (by simp [tplDashDash]) hpostK
+
+
+/-! ### `<key>value</key>` -/
+
+def nltC : Cls := ncls [(60, 60)]                                     -- [^<]
+
+theorem lemma_matchPat_xml (K K' K'' ds ds' secret post : List Char)
+    (hK : keyMatch K K' = true) (hK2 : keyMatch K K'' = true)
+    (hds : ∀ c ∈ ds, digitC.test c = true) (hds' : ∀ c ∈ ds', digitC.test c = true)
+    (hsecV : ∀ c ∈ secret, nltC.test c = true) :
+    matchPat (tplXml.inst (keyItems K))
+      (('<' :: (K' ++ (ds ++ ['>']))) ++ (secret ++ (('<' :: '/' :: (K'' ++ (ds' ++ ['>']))) ++ post))) =
+      some ⟨(secret ++ (('<' :: '/' :: (K'' ++ (ds' ++ ['>']))) ++ post)).length,
+            (('<' :: '/' :: (K'' ++ (ds' ++ ['>']))) ++ post).length, post.length⟩ := by
+  unfold matchPat
+  simp only [tplXml, Template.inst, instItems, star, one]
+  have e : ('<' :: (K' ++ (ds ++ ['>']))) ++ (secret ++ (('<' :: '/' :: (K'' ++ (ds' ++ ['>']))) ++ post))
+      = '<' :: (K' ++ (ds ++ ('>' :: (secret ++ ('<' :: '/' :: (K'' ++ (ds' ++ ('>' :: post)))))))) := by simp
+  rw [e, matchSeq_one]
+  simp only [show ltC.test '<' = true by decide, if_true]
+  rw [matchSeq_keyItems, keyPrefix_of_keyMatch K K' _ hK, if_pos rfl]
+  rw [← keyMatch_length K K' hK, List.drop_left]
+  apply matchSeq_cons_greedy _ _ _ ds _ _ rfl (Nat.zero_le _) hds
+  · intro c hc; simp at hc; subst hc; decide
+  rw [matchSeq_one]
+  simp only [show gtC.test '>' = true by decide, if_true]
+  show matchSeq [⟨ncls [(60, 60)], 0, none⟩] _ (secret ++ ('<' :: '/' :: (K'' ++ (ds' ++ ('>' :: post))))) = _
+  apply matchSeq_cons_greedy _ _ _ secret _ _ rfl (Nat.zero_le _) hsecV
+  · intro c hc; simp at hc; subst hc; decide
+  show matchSeq (⟨ltC, 1, some 1⟩ :: ⟨slashC, 1, some 1⟩ :: (keyItems K ++ _)) _
+    ('<' :: '/' :: (K'' ++ (ds' ++ ('>' :: post)))) = _
+  rw [matchSeq_one]
+  simp only [show ltC.test '<' = true by decide, if_true]
+  rw [matchSeq_one]
+  simp only [show slashC.test '/' = true by decide, if_true]
+  rw [matchSeq_keyItems, keyPrefix_of_keyMatch K K'' _ hK2, if_pos rfl]
+  rw [← keyMatch_length K K'' hK2, List.drop_left]
+  apply matchSeq_cons_greedy _ _ _ ds' _ _ rfl (Nat.zero_le _) hds'
+  · intro c hc; simp at hc; subst hc; decide
+  rw [matchSeq_one]
+  simp [show gtC.test '>' = true by decide, matchSeq]
+
+/-- **Rendering `<key>value</key>`, the pattern `_FORMAT_PATTERNS_2[5]`** (one substitution, full generality: any
+key, independent spellings and digit suffixes in the two tags, every secret over `[^<]*` — quotes, spaces,
+`=`, `>` included) -/
+theorem mask_rendering_xml_partial (K K' K'' ds ds' secret pre post mask : List Char)
+    (hK : keyMatch K K' = true) (hK2 : keyMatch K K'' = true)
+    (hds : ∀ c ∈ ds, digitC.test c = true) (hds' : ∀ c ∈ ds', digitC.test c = true)
+    (hsecV : ∀ c ∈ secret, nltC.test c = true)
+    (hpre : ∀ j, j < pre.length → keyPrefix K ((pre.drop j ++
+      (['<'] ++ K' ++ ds ++ ['>'] ++ secret ++ ['<', '/'] ++ K'' ++ ds' ++ ['>'] ++ post)).drop 1) = false)
+    (hpostK : occursCI K post = false) :
+    subPat (tplXml.inst (keyItems K)) rep2 mask
+      (pre ++ (['<'] ++ K' ++ ds ++ ['>'] ++ secret ++ ['<', '/'] ++ K'' ++ ds' ++ ['>'] ++ post))
+      = pre ++ (['<'] ++ K' ++ ds ++ ['>'] ++ mask ++ ['<', '/'] ++ K'' ++ ds' ++ ['>'] ++ post) := by
+  have e1 : ['<'] ++ K' ++ ds ++ ['>'] ++ secret ++ ['<', '/'] ++ K'' ++ ds' ++ ['>'] ++ post
+      = ('<' :: (K' ++ (ds ++ ['>']))) ++ (secret ++ (('<' :: '/' :: (K'' ++ (ds' ++ ['>']))) ++ post)) := by simp
+  rw [e1]
+  rw [subPat_rendering _ rep2 mask pre ('<' :: (K' ++ (ds ++ ['>']))) secret ('<' :: '/' :: (K'' ++ (ds' ++ ['>']))) post]
+  · simp [rep2, expand]
+  · simp
+  · intro j hj
+    unfold matchPat
+    simp only [tplXml, Template.inst, instItems, one]
+    apply lemma_matchSeq_fixed_key_none _ _ _ K _ 1 rfl rfl
+    rw [← e1]; exact hpre j hj
+  · exact lemma_matchPat_xml K K' K'' ds ds' secret post hK hK2 hds hds' hsecV
+  · exact subPat_noKey tplXml rep2 K mask post (by simp [tplXml]) hpostK
+
+/-! ### `"key": "value"` -/
+
+theorem lemma_matchPat_colon_quoted (K K' ds w1 w2 secret post : List Char) (q0 q1 q2 q3 : Char)
+    (hK : keyMatch K K' = true) (hds : ∀ c ∈ ds, digitC.test c = true) (hw1 : ∀ c ∈ w1, wsC.test c = true)
+    (hw2 : ∀ c ∈ w2, wsC.test c = true) (hq0 : quoteC.test q0 = true) (hq1 : quoteC.test q1 = true)
+    (hq2 : quoteC.test q2 = true) (hq3 : quoteC.test q3 = true) (hsecV : ∀ c ∈ secret, nquoteC.test c = true) :
+    matchPat (tplColonQuoted.inst (keyItems K))
+      ((q0 :: (K' ++ (ds ++ (q1 :: (w1 ++ (':' :: (w2 ++ [q2]))))))) ++ (secret ++ ([q3] ++ post))) =
+      some ⟨(secret ++ ([q3] ++ post)).length, ([q3] ++ post).length, post.length⟩ := by
+  unfold matchPat
+  simp only [tplColonQuoted, Template.inst, instItems, star, one]
+  have e : (q0 :: (K' ++ (ds ++ (q1 :: (w1 ++ (':' :: (w2 ++ [q2]))))))) ++ (secret ++ ([q3] ++ post))
+      = q0 :: (K' ++ (ds ++ (q1 :: (w1 ++ (':' :: (w2 ++ (q2 :: (secret ++ (q3 :: post))))))))) := by simp
+  rw [e, matchSeq_one]
+  simp only [hq0, if_true]
+  rw [matchSeq_keyItems, keyPrefix_of_keyMatch K K' _ hK, if_pos rfl]
+  rw [← keyMatch_length K K' hK, List.drop_left]
+  apply matchSeq_cons_greedy _ _ _ ds _ _ rfl (Nat.zero_le _) hds
+  · intro c hc; simp at hc; subst hc
+    cases hd : digitC.test q1 with
+    | false => rfl
+    | true => rw [lemma_digit_not_quote q1 hd] at hq1; cases hq1
+  rw [matchSeq_one]
+  simp only [hq1, if_true]
+  apply matchSeq_cons_greedy _ _ _ w1 _ _ rfl (Nat.zero_le _) hw1
+  · intro c hc; simp at hc; subst hc; decide
+  rw [matchSeq_one]
+  simp only [show colonC.test ':' = true by decide, if_true]
+  apply matchSeq_cons_greedy _ _ _ w2 _ _ rfl (Nat.zero_le _) hw2
+  · intro c hc; simp at hc; subst hc; exact lemma_quote_not_ws q2 hq2
+  rw [matchSeq_one]
+  simp only [hq2, if_true]
+  show matchSeq [⟨nquoteC, 0, none⟩] _ (secret ++ (q3 :: post)) = _
+  apply matchSeq_cons_greedy _ _ _ secret (q3 :: post) _ rfl (Nat.zero_le _) hsecV
+  · intro c hc; simp at hc; subst hc; exact lemma_quote_not_nquote q3 hq3
+  show matchSeq [⟨quoteC, 1, some 1⟩] _ (q3 :: post) = _
+  rw [matchSeq_one]
+  simp [hq3, matchSeq]
+
+/-- **Rendering `"key": "value"`, the pattern `_FORMAT_PATTERNS_2[6]`** (one substitution, full generality: any key,
+spelling, digit suffix, either quote in each of the four places, whitespace around `:`, every secret over
+`[^"']*`).  What `mask_password` as a whole does to this rendering when a further quote character follows
+later in the message is the listed finding KF_C04_WILDCARD (`known_finding_wildcard_witness`). -/
+theorem mask_rendering_colon_quoted_partial (K K' ds w1 w2 secret pre post mask : List Char) (q0 q1 q2 q3 : Char)
+    (hK : keyMatch K K' = true) (hds : ∀ c ∈ ds, digitC.test c = true) (hw1 : ∀ c ∈ w1, wsC.test c = true)
+    (hw2 : ∀ c ∈ w2, wsC.test c = true) (hq0 : quoteC.test q0 = true) (hq1 : quoteC.test q1 = true)
+    (hq2 : quoteC.test q2 = true) (hq3 : quoteC.test q3 = true) (hsecV : ∀ c ∈ secret, nquoteC.test c = true)
+    (hpre : ∀ j, j < pre.length → keyPrefix K ((pre.drop j ++
+      ([q0] ++ K' ++ ds ++ [q1] ++ w1 ++ [':'] ++ w2 ++ [q2] ++ secret ++ [q3] ++ post)).drop 1) = false)
+    (hpostK : occursCI K post = false) :
+    subPat (tplColonQuoted.inst (keyItems K)) rep2 mask
+      (pre ++ ([q0] ++ K' ++ ds ++ [q1] ++ w1 ++ [':'] ++ w2 ++ [q2] ++ secret ++ [q3] ++ post))
+      = pre ++ ([q0] ++ K' ++ ds ++ [q1] ++ w1 ++ [':'] ++ w2 ++ [q2] ++ mask ++ [q3] ++ post) := by
+  have e1 : [q0] ++ K' ++ ds ++ [q1] ++ w1 ++ [':'] ++ w2 ++ [q2] ++ secret ++ [q3] ++ post
+      = (q0 :: (K' ++ (ds ++ (q1 :: (w1 ++ (':' :: (w2 ++ [q2]))))))) ++ (secret ++ ([q3] ++ post)) := by simp
+  rw [e1]
+  rw [subPat_rendering _ rep2 mask pre (q0 :: (K' ++ (ds ++ (q1 :: (w1 ++ (':' :: (w2 ++ [q2]))))))) secret [q3] post]
+  · simp [rep2, expand]
+  · simp
+  · intro j hj
+    unfold matchPat
+    simp only [tplColonQuoted, Template.inst, instItems, one]
+    apply lemma_matchSeq_fixed_key_none _ _ _ K _ 1 rfl rfl
+    rw [← e1]; exact hpre j hj
+  · exact lemma_matchPat_colon_quoted K K' ds w1 w2 secret post q0 q1 q2 q3 hK hds hw1 hw2 hq0 hq1 hq2 hq3 hsecV
+  · exact subPat_noKey tplColonQuoted rep2 K mask post (by simp [tplColonQuoted]) hpostK
+
+
+/-! ### `key --flag value` -/
+
+def nwsC : Cls := ncls Gen.wsRanges                                   -- \S
+
+theorem lemma_flag_not_dash (c : Char) (h : flagC.test c = true) : dashC.test c = false := by
+  simp only [flagC, dashC, cls, Cls.test, inRanges] at h ⊢
+  simp at h ⊢
+  omega
+
+theorem lemma_ws_not_flag (c : Char) (h : wsC.test c = true) : flagC.test c = false := by
+  simp only [flagC, wsC, cls, Cls.test, Gen.wsRanges, inRanges] at h ⊢
+  simp at h ⊢
+  omega
+
+theorem lemma_dash_not_ws (c : Char) (h : dashC.test c = true) : wsC.test c = false := by
+  cases hw : wsC.test c with
+  | false => rfl
+  | true => rw [lemma_ws_not_dash c hw] at h; cases h
+
+theorem lemma_dash_not_digit (c : Char) (h : dashC.test c = true) : digitC.test c = false := by
+  cases hw : digitC.test c with
+  | false => rfl
+  | true => rw [lemma_digit_not_dash c hw] at h; cases h
+
+theorem lemma_nws_not_ws (c : Char) (h : nwsC.test c = true) : wsC.test c = false := by
+  simp only [nwsC, wsC, ncls, cls, Cls.test] at h ⊢
+  simpa using h
+
+theorem lemma_ws_not_nws (c : Char) (h : wsC.test c = true) : nwsC.test c = false := by
+  simp only [nwsC, wsC, ncls, cls, Cls.test] at h ⊢
+  simpa using h
+
+theorem lemma_matchPat_cmd_flag (K K' ds w1 dd flag w2 secret w3 post : List Char) (d1 : Char)
+    (hK : keyMatch K K' = true) (hds : ∀ c ∈ ds, digitC.test c = true) (hw1 : ∀ c ∈ w1, wsC.test c = true)
+    (hd1 : dashC.test d1 = true) (hdd : dd = [] ∨ ∃ d2, dd = [d2] ∧ dashC.test d2 = true)
+    (hflag : ∀ c ∈ flag, flagC.test c = true) (hflagne : flag ≠ [])
+    (hw2 : ∀ c ∈ w2, wsC.test c = true) (hw2ne : w2 ≠ [])
+    (hsec : secret ≠ []) (hsecV : ∀ c ∈ secret, nwsC.test c = true) (hw3 : ∀ c ∈ w3, wsC.test c = true)
+    (hstop : ∀ c, post.head? = some c → wsC.test c = false ∧ (w3 = [] → nwsC.test c = false)) :
+    matchPat (tplCmdFlag.inst (keyItems K))
+      ((K' ++ (ds ++ (w1 ++ (d1 :: (dd ++ (flag ++ w2)))))) ++ (secret ++ (w3 ++ post))) =
+      some ⟨(secret ++ (w3 ++ post)).length, (w3 ++ post).length, post.length⟩ := by
+  unfold matchPat
+  simp only [tplCmdFlag, Template.inst, instItems, star, one, plus, opt]
+  have e : (K' ++ (ds ++ (w1 ++ (d1 :: (dd ++ (flag ++ w2)))))) ++ (secret ++ (w3 ++ post))
+      = K' ++ (ds ++ (w1 ++ (d1 :: (dd ++ (flag ++ (w2 ++ (secret ++ (w3 ++ post)))))))) := by simp
+  rw [e, matchSeq_keyItems, keyPrefix_of_keyMatch K K' _ hK, if_pos rfl]
+  rw [← keyMatch_length K K' hK, List.drop_left]
+  apply matchSeq_cons_greedy _ _ _ ds _ _ rfl (Nat.zero_le _) hds
+  · apply head_append_of_all _ w1 _ (fun c hc => lemma_ws_not_digit c (hw1 c hc))
+    intro c hc; simp at hc; subst hc; exact lemma_dash_not_digit d1 hd1
+  apply matchSeq_cons_greedy _ _ _ w1 _ _ rfl (Nat.zero_le _) hw1
+  · intro c hc; simp at hc; subst hc; exact lemma_dash_not_ws d1 hd1
+  rw [matchSeq_one]
+  simp only [hd1, if_true]
+  -- what follows the optional second dash
+  have hrest : matchSeq [⟨flagC, 1, none⟩, ⟨wsC, 0, none⟩]
+      (fun s1 => matchSeq [⟨ncls Gen.wsRanges, 1, none⟩]
+        (fun s2 => matchSeq [⟨wsC, 0, none⟩] (fun s3 => some (Bounds.mk s1.length s2.length s3.length)) s2) s1)
+      (flag ++ (w2 ++ (secret ++ (w3 ++ post))))
+      = some (Bounds.mk (secret ++ (w3 ++ post)).length (w3 ++ post).length post.length) := by
+    apply matchSeq_cons_greedy _ _ _ flag _ _ rfl _ hflag
+    · intro c hc
+      cases w2 with
+      | nil => exact absurd rfl hw2ne
+      | cons x xs => simp at hc; subst hc; exact lemma_ws_not_flag _ (hw2 _ (by simp))
+    · apply matchSeq_cons_greedy _ _ _ w2 _ _ rfl (Nat.zero_le _) hw2
+      · intro c hc
+        cases secret with
+        | nil => exact absurd rfl hsec
+        | cons x xs => simp at hc; subst hc; exact lemma_nws_not_ws _ (hsecV _ (by simp))
+      show matchSeq [⟨ncls Gen.wsRanges, 1, none⟩] _ (secret ++ (w3 ++ post)) = _
+      apply matchSeq_cons_greedy _ _ _ secret (w3 ++ post) _ rfl _ hsecV
+      · intro c hc
+        cases w3 with
+        | nil => exact (hstop c (by simpa using hc)).2 rfl
+        | cons x xs => simp at hc; subst hc; exact lemma_ws_not_nws _ (hw3 _ (by simp))
+      · show matchSeq [⟨wsC, 0, none⟩] _ (w3 ++ post) = _
+        apply matchSeq_cons_greedy _ _ _ w3 post _ rfl (Nat.zero_le _) hw3 (fun c hc => (hstop c hc).1)
+        simp [matchSeq]
+      · cases secret with
+        | nil => exact absurd rfl hsec
+        | cons x xs => simp
+    · cases flag with
+      | nil => exact absurd rfl hflagne
+      | cons x xs => simp
+  rcases hdd with hdd | ⟨d2, hdd, hd2⟩
+  · subst hdd
+    rw [List.nil_append, matchSeq_opt_skip]
+    · exact hrest
+    · intro c hc
+      cases flag with
+      | nil => exact absurd rfl hflagne
+      | cons x xs => simp at hc; subst hc; exact lemma_flag_not_dash _ (hflag _ (by simp))
+  · subst hdd
+    exact matchSeq_opt_take _ _ _ d2 _ _ hd2 hrest
+
+/-- **Rendering `key --flag value` / `key -f value`, the pattern `_FORMAT_PATTERNS_2[9]`** (one substitution, full
+generality: any key, spelling, digit suffix, optional whitespace before the flag, one or two dashes, every flag
+over `[A-z]+` as compiled with IGNORECASE, non-empty whitespace before the value, every non-empty secret over
+`\S+`, trailing whitespace kept) -/
+theorem mask_rendering_cmd_flag_partial (K K' ds w1 dd flag w2 secret w3 pre post mask : List Char) (d1 : Char)
+    (hK : keyMatch K K' = true) (hds : ∀ c ∈ ds, digitC.test c = true) (hw1 : ∀ c ∈ w1, wsC.test c = true)
+    (hd1 : dashC.test d1 = true) (hdd : dd = [] ∨ ∃ d2, dd = [d2] ∧ dashC.test d2 = true)
+    (hflag : ∀ c ∈ flag, flagC.test c = true) (hflagne : flag ≠ [])
+    (hw2 : ∀ c ∈ w2, wsC.test c = true) (hw2ne : w2 ≠ [])
+    (hsec : secret ≠ []) (hsecV : ∀ c ∈ secret, nwsC.test c = true) (hw3 : ∀ c ∈ w3, wsC.test c = true)
+    (hstop : ∀ c, post.head? = some c → wsC.test c = false ∧ (w3 = [] → nwsC.test c = false))
+    (hpre : ∀ j, j < pre.length → keyPrefix K (pre.drop j ++
+      (K' ++ ds ++ w1 ++ [d1] ++ dd ++ flag ++ w2 ++ secret ++ w3 ++ post)) = false)
+    (hpostK : occursCI K post = false) :
+    subPat (tplCmdFlag.inst (keyItems K)) rep2 mask
+      (pre ++ (K' ++ ds ++ w1 ++ [d1] ++ dd ++ flag ++ w2 ++ secret ++ w3 ++ post))
+      = pre ++ (K' ++ ds ++ w1 ++ [d1] ++ dd ++ flag ++ w2 ++ mask ++ w3 ++ post) := by
+  have e1 : K' ++ ds ++ w1 ++ [d1] ++ dd ++ flag ++ w2 ++ secret ++ w3 ++ post
+      = (K' ++ (ds ++ (w1 ++ (d1 :: (dd ++ (flag ++ w2)))))) ++ (secret ++ (w3 ++ post)) := by simp
+  rw [e1]
+  rw [subPat_rendering _ rep2 mask pre (K' ++ (ds ++ (w1 ++ (d1 :: (dd ++ (flag ++ w2)))))) secret w3 post]
+  · simp [rep2, expand]
+  · simp
+  · intro j hj
+    unfold matchPat
+    simp only [tplCmdFlag, Template.inst, instItems]
+    rw [matchSeq_keyItems, ← e1, hpre j hj]
+    simp
+  · exact lemma_matchPat_cmd_flag K K' ds w1 dd flag w2 secret w3 post d1 hK hds hw1 hd1 hdd hflag hflagne hw2
+      hw2ne hsec hsecV hw3 hstop
+  · exact subPat_noKey tplCmdFlag rep2 K mask post (by simp [tplCmdFlag]) hpostK
+
+
+/-! ### backtracking: `[^"']*` in front of the key -/
+
+theorem lemma_tryDown_backtrack {α} (k : List Char → Option α) (s : List Char) (lo m : Nat) (v : α)
+    (hlo : lo ≤ m) (hk : k (s.drop m) = some v) :
+    ∀ (n : Nat), m ≤ n → (∀ j, m < j → j ≤ n → k (s.drop j) = none) → tryDown k s lo n = some v := by
+  intro n
+  induction n with
+  | zero =>
+    intro hmn _
+    have : m = 0 := by omega
+    subst this
+    exact tryDown_first k s lo 0 v hlo hk
+  | succ n ih =>
+    intro hmn hnone
+    by_cases hm : m = n + 1
+    · subst hm; exact tryDown_first k s lo _ v hlo hk
+    · have h1 : k (s.drop (n + 1)) = none := hnone (n + 1) (by omega) (Nat.le_refl _)
+      have h2 : ¬ (n + 1 < lo) := by omega
+      simp only [tryDown, h2, if_false, h1]
+      exact ih (by omega) (fun j hj1 hj2 => hnone j hj1 (by omega))
+
+/-- a greedy repeat that has to give back characters: the continuation fails after every longer run and
+    succeeds after `m` characters -/
+theorem lemma_matchSeq_cons_backtrack {α} (it : Item) (rest : List Item) (k : List Char → Option α)
+    (r t : List Char) (v : α) (m : Nat) (hhi : it.hi = none) (hlo : it.lo ≤ m) (hm : m ≤ r.length)
+    (hr : ∀ c ∈ r, it.cls.test c = true) (ht : ∀ c, t.head? = some c → it.cls.test c = false)
+    (hnone : ∀ j, m < j → j ≤ r.length → matchSeq rest k ((r ++ t).drop j) = none)
+    (hk : matchSeq rest k ((r ++ t).drop m) = some v) : matchSeq (it :: rest) k (r ++ t) = some v := by
+  simp only [matchSeq]
+  rw [run_unbounded it r t hhi hr ht]
+  exact lemma_tryDown_backtrack _ _ _ m v hlo hk r.length hm hnone
+
+theorem lemma_dq_not_ws (c : Char) (h : dqC.test c = true) : wsC.test c = false := by
+  simp only [wsC, dqC, cls, Cls.test, Gen.wsRanges, inRanges] at h ⊢
+  simp at h ⊢
+  omega
+
+theorem lemma_sq_not_ws (c : Char) (h : sqC.test c = true) : wsC.test c = false := by
+  simp only [wsC, sqC, cls, Cls.test, Gen.wsRanges, inRanges] at h ⊢
+  simp at h ⊢
+  omega
+
+def ndqC : Cls := ncls [(34, 34)]                                     -- [^"]
+def nsqC : Cls := ncls [(39, 39)]                                     -- [^']
+
+/-- **Rendering `key = "value"`, the pattern `_FORMAT_PATTERNS_2[1]`** (one substitution; secret over `[^"]*`, so
+single quotes allowed) -/
+theorem mask_rendering_eq_dquoted_partial (K K' ds w1 w2 secret pre post mask : List Char)
+    (hK : keyMatch K K' = true) (hds : ∀ c ∈ ds, digitC.test c = true) (hw1 : ∀ c ∈ w1, wsC.test c = true)
+    (hw2 : ∀ c ∈ w2, wsC.test c = true) (hsecV : ∀ c ∈ secret, ndqC.test c = true)
+    (hpre : ∀ j, j < pre.length → keyPrefix K (pre.drop j ++
+      (K' ++ ds ++ w1 ++ ['='] ++ w2 ++ ['"'] ++ secret ++ ['"'] ++ post)) = false)
+    (hpostK : occursCI K post = false) :
+    subPat (tplEqDq.inst (keyItems K)) rep2 mask
+      (pre ++ (K' ++ ds ++ w1 ++ ['='] ++ w2 ++ ['"'] ++ secret ++ ['"'] ++ post))
+      = pre ++ (K' ++ ds ++ w1 ++ ['='] ++ w2 ++ ['"'] ++ mask ++ ['"'] ++ post) := by
+  have e1 : K' ++ ds ++ w1 ++ ['='] ++ w2 ++ ['"'] ++ secret ++ ['"'] ++ post
+      = (K' ++ (ds ++ (w1 ++ ('=' :: (w2 ++ ['"']))))) ++ (secret ++ (['"'] ++ post)) := by simp
+  have h := lemma_sub_eq_q dqC ndqC rep2 K K' ds w1 w2 secret pre post mask '"' '"' hK hds hw1 hw2 (by decide)
+    (by decide) (by decide) (by decide) hsecV (by rw [← e1]; exact hpre) hpostK
+  rw [e1]
+  simp only [tplEqDq]
+  simp only [ndqC] at h
+  rw [h]
+  simp [rep2, expand]
+
+/-- **Rendering `key = 'value'`, the pattern `_FORMAT_PATTERNS_2[2]`** (one substitution; secret over `[^']*`, so
+double quotes allowed) -/
+theorem mask_rendering_eq_squoted_partial (K K' ds w1 w2 secret pre post mask : List Char)
+    (hK : keyMatch K K' = true) (hds : ∀ c ∈ ds, digitC.test c = true) (hw1 : ∀ c ∈ w1, wsC.test c = true)
+    (hw2 : ∀ c ∈ w2, wsC.test c = true) (hsecV : ∀ c ∈ secret, nsqC.test c = true)
+    (hpre : ∀ j, j < pre.length → keyPrefix K (pre.drop j ++
+      (K' ++ ds ++ w1 ++ ['='] ++ w2 ++ ['\''] ++ secret ++ ['\''] ++ post)) = false)
+    (hpostK : occursCI K post = false) :
+    subPat (tplEqSq.inst (keyItems K)) rep2 mask
+      (pre ++ (K' ++ ds ++ w1 ++ ['='] ++ w2 ++ ['\''] ++ secret ++ ['\''] ++ post))
+      = pre ++ (K' ++ ds ++ w1 ++ ['='] ++ w2 ++ ['\''] ++ mask ++ ['\''] ++ post) := by
+  have e1 : K' ++ ds ++ w1 ++ ['='] ++ w2 ++ ['\''] ++ secret ++ ['\''] ++ post
+      = (K' ++ (ds ++ (w1 ++ ('=' :: (w2 ++ ['\'']))))) ++ (secret ++ (['\''] ++ post)) := by simp
+  have h := lemma_sub_eq_q sqC nsqC rep2 K K' ds w1 w2 secret pre post mask '\'' '\'' hK hds hw1 hw2 (by decide)
+    (by decide) (by decide) (by decide) hsecV (by rw [← e1]; exact hpre) hpostK
+  rw [e1]
+  simp only [tplEqSq]
+  simp only [nsqC] at h
+  rw [h]
+  simp [rep2, expand]
+
+
+/-! ### `"prefix_key": u"value"` -/
+
+theorem lemma_digit_nquote (c : Char) (h : digitC.test c = true) : nquoteC.test c = true := by
+  simp only [digitC, nquoteC, cls, ncls, Cls.test, inRanges] at h ⊢
+  simp at h ⊢
+  omega
+
+theorem lemma_u_not_ws (c : Char) (h : uC.test c = true) : wsC.test c = false := by
+  simp only [wsC, uC, cls, Cls.test, Gen.wsRanges, inRanges] at h ⊢
+  simp at h ⊢
+  omega
+
+theorem lemma_quote_not_u (c : Char) (h : quoteC.test c = true) : uC.test c = false := by
+  simp only [quoteC, uC, cls, Cls.test, inRanges] at h ⊢
+  simp at h ⊢
+  omega
+
+theorem lemma_quote_not_digit (c : Char) (h : quoteC.test c = true) : digitC.test c = false := by
+  cases hd : digitC.test c with
+  | false => rfl
+  | true => rw [lemma_digit_not_quote c hd] at h; cases h
+
+/-- no match of a pattern that starts with a quote begins inside a text without quotes -/
+theorem lemma_quote_first_none {α} (rest : List Item) (k : List Char → Option α) (pre R : List Char)
+    (hpreq : ∀ c ∈ pre, quoteC.test c = false) (j : Nat) (hj : j < pre.length) :
+    matchSeq (⟨quoteC, 1, some 1⟩ :: rest) k (pre.drop j ++ R) = none := by
+  rw [matchSeq_one]
+  cases hd : pre.drop j with
+  | nil =>
+    have : (pre.drop j).length = 0 := by rw [hd]; rfl
+    simp at this; omega
+  | cons c cs =>
+    have hc : c ∈ pre := List.mem_of_mem_drop (by rw [hd]; simp)
+    simp [hpreq c hc]
+
+/-- the part of the colon patterns after the key: `[0-9]*["']\s*:\s*u?["'][^"']*["']` -/
+theorem lemma_colon_tail (ds w1 w2 uu secret post : List Char) (q1 q2 q3 : Char)
+    (hds : ∀ c ∈ ds, digitC.test c = true) (hw1 : ∀ c ∈ w1, wsC.test c = true)
+    (hw2 : ∀ c ∈ w2, wsC.test c = true) (hq1 : quoteC.test q1 = true)
+    (hq2 : quoteC.test q2 = true) (hq3 : quoteC.test q3 = true)
+    (huu : uu = [] ∨ ∃ u, uu = [u] ∧ uC.test u = true) (hsecV : ∀ c ∈ secret, nquoteC.test c = true) :
+    matchSeq [⟨digitC, 0, none⟩, ⟨quoteC, 1, some 1⟩, ⟨wsC, 0, none⟩, ⟨colonC, 1, some 1⟩, ⟨wsC, 0, none⟩,
+        ⟨uC, 0, some 1⟩, ⟨quoteC, 1, some 1⟩]
+      (fun s1 => matchSeq [⟨nquoteC, 0, none⟩]
+        (fun s2 => matchSeq [⟨quoteC, 1, some 1⟩] (fun s3 => some (Bounds.mk s1.length s2.length s3.length)) s2) s1)
+      (ds ++ (q1 :: (w1 ++ (':' :: (w2 ++ (uu ++ (q2 :: (secret ++ (q3 :: post)))))))))
+      = some (Bounds.mk (secret ++ ([q3] ++ post)).length ([q3] ++ post).length post.length) := by
+  apply matchSeq_cons_greedy _ _ _ ds _ _ rfl (Nat.zero_le _) hds
+  · intro c hc; simp at hc; subst hc; exact lemma_quote_not_digit q1 hq1
+  rw [matchSeq_one]
+  simp only [hq1, if_true]
+  apply matchSeq_cons_greedy _ _ _ w1 _ _ rfl (Nat.zero_le _) hw1
+  · intro c hc; simp at hc; subst hc; decide
+  rw [matchSeq_one]
+  simp only [show colonC.test ':' = true by decide, if_true]
+  have hfin : matchSeq [⟨quoteC, 1, some 1⟩]
+      (fun s1 => matchSeq [⟨nquoteC, 0, none⟩]
+        (fun s2 => matchSeq [⟨quoteC, 1, some 1⟩] (fun s3 => some (Bounds.mk s1.length s2.length s3.length)) s2) s1)
+      (q2 :: (secret ++ (q3 :: post)))
+      = some (Bounds.mk (secret ++ ([q3] ++ post)).length ([q3] ++ post).length post.length) := by
+    rw [matchSeq_one]
+    simp only [hq2, if_true]
+    show matchSeq [⟨nquoteC, 0, none⟩] _ (secret ++ (q3 :: post)) = _
+    apply matchSeq_cons_greedy _ _ _ secret (q3 :: post) _ rfl (Nat.zero_le _) hsecV
+    · intro c hc; simp at hc; subst hc; exact lemma_quote_not_nquote q3 hq3
+    show matchSeq [⟨quoteC, 1, some 1⟩] _ (q3 :: post) = _
+    rw [matchSeq_one]
+    simp [hq3, matchSeq]
+  rcases huu with huu | ⟨u, huu, hu⟩
+  · subst huu
+    apply matchSeq_cons_greedy _ _ _ w2 _ _ rfl (Nat.zero_le _) hw2
+    · intro c hc; simp at hc; subst hc; exact lemma_quote_not_ws q2 hq2
+    rw [List.nil_append, matchSeq_opt_skip]
+    · exact hfin
+    · intro c hc; simp at hc; subst hc; exact lemma_quote_not_u q2 hq2
+  · subst huu
+    apply matchSeq_cons_greedy _ _ _ w2 _ _ rfl (Nat.zero_le _) hw2
+    · intro c hc; simp at hc; subst hc; exact lemma_u_not_ws u hu
+    exact matchSeq_opt_take _ _ _ u _ _ hu hfin
+
+theorem lemma_matchPat_colon_prefixed (K K' px ds w1 w2 uu secret post : List Char) (q0 q1 q2 q3 : Char)
+    (hK : keyMatch K K' = true) (hKnq : ∀ c ∈ K', nquoteC.test c = true)
+    (hpx : ∀ c ∈ px, nquoteC.test c = true)
+    (hds : ∀ c ∈ ds, digitC.test c = true) (hw1 : ∀ c ∈ w1, wsC.test c = true)
+    (hw2 : ∀ c ∈ w2, wsC.test c = true) (hq0 : quoteC.test q0 = true) (hq1 : quoteC.test q1 = true)
+    (hq2 : quoteC.test q2 = true) (hq3 : quoteC.test q3 = true)
+    (huu : uu = [] ∨ ∃ u, uu = [u] ∧ uC.test u = true) (hsecV : ∀ c ∈ secret, nquoteC.test c = true)
+    (hmid : ∀ j, px.length < j → j ≤ (px ++ (K' ++ ds)).length →
+      keyPrefix K (((px ++ (K' ++ ds)) ++ (q1 :: (w1 ++ (':' :: (w2 ++ (uu ++ (q2 :: (secret ++ (q3 :: post))))))))).drop j)
+        = false) :
+    matchPat (tplColonPrefixed.inst (keyItems K))
+      ((q0 :: (px ++ (K' ++ (ds ++ (q1 :: (w1 ++ (':' :: (w2 ++ (uu ++ [q2]))))))))) ++ (secret ++ ([q3] ++ post))) =
+      some ⟨(secret ++ ([q3] ++ post)).length, ([q3] ++ post).length, post.length⟩ := by
+  unfold matchPat
+  simp only [tplColonPrefixed, Template.inst, instItems, star, one, opt]
+  have e : (q0 :: (px ++ (K' ++ (ds ++ (q1 :: (w1 ++ (':' :: (w2 ++ (uu ++ [q2]))))))))) ++ (secret ++ ([q3] ++ post))
+      = q0 :: ((px ++ (K' ++ ds)) ++ (q1 :: (w1 ++ (':' :: (w2 ++ (uu ++ (q2 :: (secret ++ (q3 :: post))))))))) := by
+    simp
+  rw [e, matchSeq_one]
+  simp only [hq0, if_true]
+  apply lemma_matchSeq_cons_backtrack _ _ _ (px ++ (K' ++ ds)) _ _ px.length rfl (Nat.zero_le _) (by simp)
+  · intro c hc
+    simp only [List.mem_append] at hc
+    rcases hc with h | h | h
+    · exact hpx c h
+    · exact hKnq c h
+    · exact lemma_digit_nquote c (hds c h)
+  · intro c hc; simp at hc; subst hc; exact lemma_quote_not_nquote q1 hq1
+  · intro j h1 h2
+    rw [matchSeq_keyItems, hmid j h1 h2]
+    simp
+  · have ed : ((px ++ (K' ++ ds)) ++ (q1 :: (w1 ++ (':' :: (w2 ++ (uu ++ (q2 :: (secret ++ (q3 :: post))))))))).drop px.length
+        = K' ++ (ds ++ (q1 :: (w1 ++ (':' :: (w2 ++ (uu ++ (q2 :: (secret ++ (q3 :: post))))))))) := by
+      rw [List.append_assoc, List.drop_left]; simp
+    rw [ed, matchSeq_keyItems, keyPrefix_of_keyMatch K K' _ hK, if_pos rfl]
+    rw [← keyMatch_length K K' hK, List.drop_left]
+    exact lemma_colon_tail ds w1 w2 uu secret post q1 q2 q3 hds hw1 hw2 hq1 hq2 hq3 huu hsecV
+
+/-- **Rendering `"prefix_key": u"value"`, the pattern `_FORMAT_PATTERNS_2[7]`** (one substitution, full generality:
+any key, spelling, digit suffix, any quote-free text between the opening quote and the key, either quote in each
+place, whitespace around `:`, optional `u`/`U`, every secret over `[^"']*`).  The greedy `[^"']*` in front of the
+key has to give characters back: `hmid` says the key does not start again inside `key digits`. -/
+theorem mask_rendering_colon_prefixed_partial (K K' px ds w1 w2 uu secret pre post mask : List Char) (q0 q1 q2 q3 : Char)
+    (hK : keyMatch K K' = true) (hKnq : ∀ c ∈ K', nquoteC.test c = true)
+    (hpx : ∀ c ∈ px, nquoteC.test c = true)
+    (hds : ∀ c ∈ ds, digitC.test c = true) (hw1 : ∀ c ∈ w1, wsC.test c = true)
+    (hw2 : ∀ c ∈ w2, wsC.test c = true) (hq0 : quoteC.test q0 = true) (hq1 : quoteC.test q1 = true)
+    (hq2 : quoteC.test q2 = true) (hq3 : quoteC.test q3 = true)
+    (huu : uu = [] ∨ ∃ u, uu = [u] ∧ uC.test u = true) (hsecV : ∀ c ∈ secret, nquoteC.test c = true)
+    (hmid : ∀ j, px.length < j → j ≤ (px ++ (K' ++ ds)).length →
+      keyPrefix K (((px ++ (K' ++ ds)) ++ (q1 :: (w1 ++ (':' :: (w2 ++ (uu ++ (q2 :: (secret ++ (q3 :: post))))))))).drop j)
+        = false)
+    (hpreq : ∀ c ∈ pre, quoteC.test c = false) (hpostK : occursCI K post = false) :
+    subPat (tplColonPrefixed.inst (keyItems K)) rep2 mask
+      (pre ++ ([q0] ++ px ++ K' ++ ds ++ [q1] ++ w1 ++ [':'] ++ w2 ++ uu ++ [q2] ++ secret ++ [q3] ++ post))
+      = pre ++ ([q0] ++ px ++ K' ++ ds ++ [q1] ++ w1 ++ [':'] ++ w2 ++ uu ++ [q2] ++ mask ++ [q3] ++ post) := by
+  have e1 : [q0] ++ px ++ K' ++ ds ++ [q1] ++ w1 ++ [':'] ++ w2 ++ uu ++ [q2] ++ secret ++ [q3] ++ post
+      = (q0 :: (px ++ (K' ++ (ds ++ (q1 :: (w1 ++ (':' :: (w2 ++ (uu ++ [q2]))))))))) ++ (secret ++ ([q3] ++ post)) := by
+    simp
+  rw [e1]
+  rw [subPat_rendering _ rep2 mask pre (q0 :: (px ++ (K' ++ (ds ++ (q1 :: (w1 ++ (':' :: (w2 ++ (uu ++ [q2]))))))))) secret [q3] post]
+  · simp [rep2, expand]
+  · simp
+  · intro j hj
+    unfold matchPat
+    simp only [tplColonPrefixed, Template.inst, instItems, one]
+    exact lemma_quote_first_none _ _ pre _ hpreq j hj
+  · exact lemma_matchPat_colon_prefixed K K' px ds w1 w2 uu secret post q0 q1 q2 q3 hK hKnq hpx hds hw1 hw2 hq0 hq1
+      hq2 hq3 huu hsecV hmid
+  · exact subPat_noKey tplColonPrefixed rep2 K mask post (by simp [tplColonPrefixed]) hpostK
+
+
+/-! ### `'key', '--flag', 'value'` -/
+
+theorem lemma_matchPat_cmd_list (K K' px ds w1 w2 dd flag w3 w4 uu secret post : List Char) (q0 q1 q2 q3 d1 : Char)
+    (hK : keyMatch K K' = true) (hKnq : ∀ c ∈ K', nquoteC.test c = true)
+    (hpx : ∀ c ∈ px, nquoteC.test c = true)
+    (hds : ∀ c ∈ ds, digitC.test c = true) (hw1 : ∀ c ∈ w1, wsC.test c = true)
+    (hw2 : ∀ c ∈ w2, wsC.test c = true) (hw3 : ∀ c ∈ w3, wsC.test c = true) (hw4 : ∀ c ∈ w4, wsC.test c = true)
+    (hq0 : quoteC.test q0 = true) (hq1 : quoteC.test q1 = true)
+    (hq2 : quoteC.test q2 = true) (hq3 : quoteC.test q3 = true)
+    (hd1 : dashC.test d1 = true) (hdd : dd = [] ∨ ∃ d2, dd = [d2] ∧ dashC.test d2 = true)
+    (hflag : ∀ c ∈ flag, flagC.test c = true) (hflagne : flag ≠ [])
+    (huu : uu = [] ∨ ∃ u, uu = [u] ∧ uC.test u = true) (hsecV : ∀ c ∈ secret, nquoteC.test c = true)
+    (hmid : ∀ j, px.length < j → j ≤ (px ++ (K' ++ ds)).length →
+      keyPrefix K (((px ++ (K' ++ ds)) ++ (q1 :: (w1 ++ (',' :: (w2 ++ ('\'' :: d1 :: (dd ++ (flag ++
+        ('\'' :: (w3 ++ (',' :: (w4 ++ (uu ++ (q2 :: (secret ++ (q3 :: post)))))))))))))))).drop j) = false) :
+    matchPat (tplCmdList.inst (keyItems K))
+      ((q0 :: (px ++ (K' ++ (ds ++ (q1 :: (w1 ++ (',' :: (w2 ++ ('\'' :: d1 :: (dd ++ (flag ++
+        ('\'' :: (w3 ++ (',' :: (w4 ++ (uu ++ [q2])))))))))))))))) ++ (secret ++ ([q3] ++ post))) =
+      some ⟨(secret ++ ([q3] ++ post)).length, ([q3] ++ post).length, post.length⟩ := by
+  unfold matchPat
+  simp only [tplCmdList, Template.inst, instItems, star, one, opt, plus]
+  have e : (q0 :: (px ++ (K' ++ (ds ++ (q1 :: (w1 ++ (',' :: (w2 ++ ('\'' :: d1 :: (dd ++ (flag ++
+        ('\'' :: (w3 ++ (',' :: (w4 ++ (uu ++ [q2])))))))))))))))) ++ (secret ++ ([q3] ++ post))
+      = q0 :: ((px ++ (K' ++ ds)) ++ (q1 :: (w1 ++ (',' :: (w2 ++ ('\'' :: d1 :: (dd ++ (flag ++
+        ('\'' :: (w3 ++ (',' :: (w4 ++ (uu ++ (q2 :: (secret ++ (q3 :: post)))))))))))))))) := by
+    simp
+  rw [e, matchSeq_one]
+  simp only [hq0, if_true]
+  apply lemma_matchSeq_cons_backtrack _ _ _ (px ++ (K' ++ ds)) _ _ px.length rfl (Nat.zero_le _) (by simp)
+  · intro c hc
+    simp only [List.mem_append] at hc
+    rcases hc with h | h | h
+    · exact hpx c h
+    · exact hKnq c h
+    · exact lemma_digit_nquote c (hds c h)
+  · intro c hc; simp at hc; subst hc; exact lemma_quote_not_nquote q1 hq1
+  · intro j h1 h2
+    rw [matchSeq_keyItems, hmid j h1 h2]
+    simp
+  · have ed : ((px ++ (K' ++ ds)) ++ (q1 :: (w1 ++ (',' :: (w2 ++ ('\'' :: d1 :: (dd ++ (flag ++
+          ('\'' :: (w3 ++ (',' :: (w4 ++ (uu ++ (q2 :: (secret ++ (q3 :: post)))))))))))))))).drop px.length
+        = K' ++ (ds ++ (q1 :: (w1 ++ (',' :: (w2 ++ ('\'' :: d1 :: (dd ++ (flag ++
+          ('\'' :: (w3 ++ (',' :: (w4 ++ (uu ++ (q2 :: (secret ++ (q3 :: post)))))))))))))))) := by
+      rw [List.append_assoc, List.drop_left]; simp
+    rw [ed, matchSeq_keyItems, keyPrefix_of_keyMatch K K' _ hK, if_pos rfl]
+    rw [← keyMatch_length K K' hK, List.drop_left]
+    apply matchSeq_cons_greedy _ _ _ ds _ _ rfl (Nat.zero_le _) hds
+    · intro c hc; simp at hc; subst hc; exact lemma_quote_not_digit q1 hq1
+    rw [matchSeq_one]
+    simp only [hq1, if_true]
+    apply matchSeq_cons_greedy _ _ _ w1 _ _ rfl (Nat.zero_le _) hw1
+    · intro c hc; simp at hc; subst hc; decide
+    rw [matchSeq_one]
+    simp only [show commaC.test ',' = true by decide, if_true]
+    apply matchSeq_cons_greedy _ _ _ w2 _ _ rfl (Nat.zero_le _) hw2
+    · intro c hc; simp at hc; subst hc; decide
+    rw [matchSeq_one]
+    simp only [show sqC.test '\'' = true by decide, if_true]
+    rw [matchSeq_one]
+    simp only [hd1, if_true]
+    -- after the optional second dash
+    have htail : matchSeq [⟨flagC, 1, none⟩, ⟨sqC, 1, some 1⟩, ⟨wsC, 0, none⟩, ⟨commaC, 1, some 1⟩, ⟨wsC, 0, none⟩,
+          ⟨uC, 0, some 1⟩, ⟨quoteC, 1, some 1⟩]
+        (fun s1 => matchSeq [⟨nquoteC, 0, none⟩]
+          (fun s2 => matchSeq [⟨quoteC, 1, some 1⟩] (fun s3 => some (Bounds.mk s1.length s2.length s3.length)) s2) s1)
+        (flag ++ ('\'' :: (w3 ++ (',' :: (w4 ++ (uu ++ (q2 :: (secret ++ (q3 :: post)))))))))
+        = some (Bounds.mk (secret ++ ([q3] ++ post)).length ([q3] ++ post).length post.length) := by
+      apply matchSeq_cons_greedy _ _ _ flag _ _ rfl _ hflag
+      · intro c hc; simp at hc; subst hc; decide
+      · rw [matchSeq_one]
+        simp only [show sqC.test '\'' = true by decide, if_true]
+        apply matchSeq_cons_greedy _ _ _ w3 _ _ rfl (Nat.zero_le _) hw3
+        · intro c hc; simp at hc; subst hc; decide
+        rw [matchSeq_one]
+        simp only [show commaC.test ',' = true by decide, if_true]
+        have hfin : matchSeq [⟨quoteC, 1, some 1⟩]
+            (fun s1 => matchSeq [⟨nquoteC, 0, none⟩]
+              (fun s2 => matchSeq [⟨quoteC, 1, some 1⟩] (fun s3 => some (Bounds.mk s1.length s2.length s3.length)) s2) s1)
+            (q2 :: (secret ++ (q3 :: post)))
+            = some (Bounds.mk (secret ++ ([q3] ++ post)).length ([q3] ++ post).length post.length) := by
+          rw [matchSeq_one]
+          simp only [hq2, if_true]
+          show matchSeq [⟨nquoteC, 0, none⟩] _ (secret ++ (q3 :: post)) = _
+          apply matchSeq_cons_greedy _ _ _ secret (q3 :: post) _ rfl (Nat.zero_le _) hsecV
+          · intro c hc; simp at hc; subst hc; exact lemma_quote_not_nquote q3 hq3
+          show matchSeq [⟨quoteC, 1, some 1⟩] _ (q3 :: post) = _
+          rw [matchSeq_one]
+          simp [hq3, matchSeq]
+        rcases huu with huu | ⟨u, huu, hu⟩
+        · subst huu
+          apply matchSeq_cons_greedy _ _ _ w4 _ _ rfl (Nat.zero_le _) hw4
+          · intro c hc; simp at hc; subst hc; exact lemma_quote_not_ws q2 hq2
+          rw [List.nil_append, matchSeq_opt_skip]
+          · exact hfin
+          · intro c hc; simp at hc; subst hc; exact lemma_quote_not_u q2 hq2
+        · subst huu
+          apply matchSeq_cons_greedy _ _ _ w4 _ _ rfl (Nat.zero_le _) hw4
+          · intro c hc; simp at hc; subst hc; exact lemma_u_not_ws u hu
+          exact matchSeq_opt_take _ _ _ u _ _ hu hfin
+      · cases flag with
+        | nil => exact absurd rfl hflagne
+        | cons x xs => simp
+    rcases hdd with hdd | ⟨d2, hdd, hd2⟩
+    · subst hdd
+      rw [List.nil_append, matchSeq_opt_skip]
+      · exact htail
+      · intro c hc
+        cases flag with
+        | nil => exact absurd rfl hflagne
+        | cons x xs => simp at hc; subst hc; exact lemma_flag_not_dash _ (hflag _ (by simp))
+    · subst hdd
+      exact matchSeq_opt_take _ _ _ d2 _ _ hd2 htail
+
+/-- **Rendering `'prefix_key', '--flag', u'value'`, the pattern `_FORMAT_PATTERNS_2[8]`** (one substitution, full
+generality: any key, spelling, digit suffix, quote-free prefix, either quote around key and value, whitespace
+around the commas, one or two dashes, every flag over `[A-z]+` as compiled, optional `u`, every secret over
+`[^"']*`) -/
+theorem mask_rendering_cmd_list_partial (K K' px ds w1 w2 dd flag w3 w4 uu secret pre post mask : List Char)
+    (q0 q1 q2 q3 d1 : Char)
+    (hK : keyMatch K K' = true) (hKnq : ∀ c ∈ K', nquoteC.test c = true)
+    (hpx : ∀ c ∈ px, nquoteC.test c = true)
+    (hds : ∀ c ∈ ds, digitC.test c = true) (hw1 : ∀ c ∈ w1, wsC.test c = true)
+    (hw2 : ∀ c ∈ w2, wsC.test c = true) (hw3 : ∀ c ∈ w3, wsC.test c = true) (hw4 : ∀ c ∈ w4, wsC.test c = true)
+    (hq0 : quoteC.test q0 = true) (hq1 : quoteC.test q1 = true)
+    (hq2 : quoteC.test q2 = true) (hq3 : quoteC.test q3 = true)
+    (hd1 : dashC.test d1 = true) (hdd : dd = [] ∨ ∃ d2, dd = [d2] ∧ dashC.test d2 = true)
+    (hflag : ∀ c ∈ flag, flagC.test c = true) (hflagne : flag ≠ [])
+    (huu : uu = [] ∨ ∃ u, uu = [u] ∧ uC.test u = true) (hsecV : ∀ c ∈ secret, nquoteC.test c = true)
+    (hmid : ∀ j, px.length < j → j ≤ (px ++ (K' ++ ds)).length →
+      keyPrefix K (((px ++ (K' ++ ds)) ++ (q1 :: (w1 ++ (',' :: (w2 ++ ('\'' :: d1 :: (dd ++ (flag ++
+        ('\'' :: (w3 ++ (',' :: (w4 ++ (uu ++ (q2 :: (secret ++ (q3 :: post)))))))))))))))).drop j) = false)
+    (hpreq : ∀ c ∈ pre, quoteC.test c = false) (hpostK : occursCI K post = false) :
+    subPat (tplCmdList.inst (keyItems K)) rep2 mask
+      (pre ++ ([q0] ++ px ++ K' ++ ds ++ [q1] ++ w1 ++ [','] ++ w2 ++ ['\'', d1] ++ dd ++ flag ++ ['\''] ++ w3 ++
+        [','] ++ w4 ++ uu ++ [q2] ++ secret ++ [q3] ++ post))
+      = pre ++ ([q0] ++ px ++ K' ++ ds ++ [q1] ++ w1 ++ [','] ++ w2 ++ ['\'', d1] ++ dd ++ flag ++ ['\''] ++ w3 ++
+        [','] ++ w4 ++ uu ++ [q2] ++ mask ++ [q3] ++ post) := by
+  have e1 : [q0] ++ px ++ K' ++ ds ++ [q1] ++ w1 ++ [','] ++ w2 ++ ['\'', d1] ++ dd ++ flag ++ ['\''] ++ w3 ++
+        [','] ++ w4 ++ uu ++ [q2] ++ secret ++ [q3] ++ post
+      = (q0 :: (px ++ (K' ++ (ds ++ (q1 :: (w1 ++ (',' :: (w2 ++ ('\'' :: d1 :: (dd ++ (flag ++
+        ('\'' :: (w3 ++ (',' :: (w4 ++ (uu ++ [q2])))))))))))))))) ++ (secret ++ ([q3] ++ post)) := by
+    simp
+  rw [e1]
+  rw [subPat_rendering _ rep2 mask pre (q0 :: (px ++ (K' ++ (ds ++ (q1 :: (w1 ++ (',' :: (w2 ++ ('\'' :: d1 :: (dd ++ (flag ++
+        ('\'' :: (w3 ++ (',' :: (w4 ++ (uu ++ [q2])))))))))))))))) secret [q3] post]
+  · simp [rep2, expand]
+  · simp
+  · intro j hj
+    unfold matchPat
+    simp only [tplCmdList, Template.inst, instItems, one]
+    exact lemma_quote_first_none _ _ pre _ hpreq j hj
+  · exact lemma_matchPat_cmd_list K K' px ds w1 w2 dd flag w3 w4 uu secret post q0 q1 q2 q3 d1 hK hKnq hpx hds hw1
+      hw2 hw3 hw4 hq0 hq1 hq2 hq3 hd1 hdd hflag hflagne huu hsecV hmid
+  · exact subPat_noKey tplCmdList rep2 K mask post (by simp [tplCmdList]) hpostK
+
+
+/-! ### masking an already masked message (one substitution per rendering) -/
+
+/-- `key = "***"` stays as it is under the eq_quoted substitution, for every mask over `[^"']*` -/
+theorem sub_idempotent_on_masked_eq_quoted (K K' ds w1 w2 pre post mask : List Char) (q1 q2 : Char)
+    (hK : keyMatch K K' = true) (hds : ∀ c ∈ ds, digitC.test c = true) (hw1 : ∀ c ∈ w1, wsC.test c = true)
+    (hw2 : ∀ c ∈ w2, wsC.test c = true) (hq1 : quoteC.test q1 = true) (hq2 : quoteC.test q2 = true)
+    (hmaskV : ∀ c ∈ mask, nquoteC.test c = true)
+    (hpre : ∀ j, j < pre.length → keyPrefix K (pre.drop j ++
+      (K' ++ ds ++ w1 ++ ['='] ++ w2 ++ [q1] ++ mask ++ [q2] ++ post)) = false)
+    (hpostK : occursCI K post = false) :
+    subPat (tplEqQuoted.inst (keyItems K)) rep2 mask
+      (pre ++ (K' ++ ds ++ w1 ++ ['='] ++ w2 ++ [q1] ++ mask ++ [q2] ++ post))
+      = pre ++ (K' ++ ds ++ w1 ++ ['='] ++ w2 ++ [q1] ++ mask ++ [q2] ++ post) :=
+  sub_rendering_eq_quoted K K' ds w1 w2 mask pre post mask q1 q2 hK hds hw1 hw2 hq1 hq2 hmaskV hpre hpostK
+
+/-- `<key>***</key>` stays as it is under the xml substitution, for every mask over `[^<]*` -/
+theorem mask_idempotent_on_masked_xml_partial (K K' K'' ds ds' pre post mask : List Char)
+    (hK : keyMatch K K' = true) (hK2 : keyMatch K K'' = true)
+    (hds : ∀ c ∈ ds, digitC.test c = true) (hds' : ∀ c ∈ ds', digitC.test c = true)
+    (hmaskV : ∀ c ∈ mask, nltC.test c = true)
+    (hpre : ∀ j, j < pre.length → keyPrefix K ((pre.drop j ++
+      (['<'] ++ K' ++ ds ++ ['>'] ++ mask ++ ['<', '/'] ++ K'' ++ ds' ++ ['>'] ++ post)).drop 1) = false)
+    (hpostK : occursCI K post = false) :
+    subPat (tplXml.inst (keyItems K)) rep2 mask
+      (pre ++ (['<'] ++ K' ++ ds ++ ['>'] ++ mask ++ ['<', '/'] ++ K'' ++ ds' ++ ['>'] ++ post))
+      = pre ++ (['<'] ++ K' ++ ds ++ ['>'] ++ mask ++ ['<', '/'] ++ K'' ++ ds' ++ ['>'] ++ post) :=
+  mask_rendering_xml_partial K K' K'' ds ds' mask pre post mask hK hK2 hds hds' hmaskV hpre hpostK
+
+/-- `"key": "***"` stays as it is under the colon_quoted substitution, for every mask over `[^"']*` -/
+theorem mask_idempotent_on_masked_colon_quoted_partial (K K' ds w1 w2 pre post mask : List Char) (q0 q1 q2 q3 : Char)
+    (hK : keyMatch K K' = true) (hds : ∀ c ∈ ds, digitC.test c = true) (hw1 : ∀ c ∈ w1, wsC.test c = true)
+    (hw2 : ∀ c ∈ w2, wsC.test c = true) (hq0 : quoteC.test q0 = true) (hq1 : quoteC.test q1 = true)
+    (hq2 : quoteC.test q2 = true) (hq3 : quoteC.test q3 = true) (hmaskV : ∀ c ∈ mask, nquoteC.test c = true)
+    (hpre : ∀ j, j < pre.length → keyPrefix K ((pre.drop j ++
+      ([q0] ++ K' ++ ds ++ [q1] ++ w1 ++ [':'] ++ w2 ++ [q2] ++ mask ++ [q3] ++ post)).drop 1) = false)
+    (hpostK : occursCI K post = false) :
+    subPat (tplColonQuoted.inst (keyItems K)) rep2 mask
+      (pre ++ ([q0] ++ K' ++ ds ++ [q1] ++ w1 ++ [':'] ++ w2 ++ [q2] ++ mask ++ [q3] ++ post))
+      = pre ++ ([q0] ++ K' ++ ds ++ [q1] ++ w1 ++ [':'] ++ w2 ++ [q2] ++ mask ++ [q3] ++ post) :=
+  mask_rendering_colon_quoted_partial K K' ds w1 w2 mask pre post mask q0 q1 q2 q3 hK hds hw1 hw2 hq0 hq1 hq2 hq3 hmaskV
+    hpre hpostK
+
+/-! ### `key = "value"`: `mask_password` as a whole -/
+
+theorem lemma_Consumes_cons_inv {it : Item} {rest : List Item} {s s' : List Char}
+    (h : Consumes (it :: rest) s s') : ∃ seg s1, s = seg ++ s1 ∧ (∀ c ∈ seg, it.cls.test c = true) ∧
+      it.lo ≤ seg.length ∧ (∀ m, it.hi = some m → seg.length ≤ m) ∧ Consumes rest s1 s' := by
+  cases h with
+  | cons _ _ seg s1 _ hseg hlo hhi hrest => exact ⟨seg, s1, rfl, hseg, hlo, hhi, hrest⟩
+
+/-- `key "value"` cannot match where `=` follows the key -/
+theorem lemma_nomatch_keyquoted_eq (K K' ds w1 X s1 : List Char) (hK : keyMatch K K' = true)
+    (hds : ∀ c ∈ ds, digitC.test c = true) (hw1 : ∀ c ∈ w1, wsC.test c = true) :
+    ¬ Consumes (instItems (keyItems K) tplKeyQuoted.g1) (K' ++ (ds ++ (w1 ++ ('=' :: X)))) s1 := by
+  intro c1
+  simp only [tplKeyQuoted, instItems, one, star, plus] at c1
+  obtain ⟨_, c2⟩ := lemma_Consumes_keyItems_inv _ K _ s1 c1
+  rw [← keyMatch_length K K' hK, List.drop_left] at c2
+  obtain ⟨j, _, _, c3⟩ := c2.star_inv (by
+    apply head_append_of_all _ w1 _ (fun c hc => lemma_ws_not_digit c (hw1 c hc))
+    intro c hc; simp at hc; subst hc; decide)
+  cases hd : ds.drop j with
+  | nil =>
+    rw [hd, List.nil_append] at c3
+    obtain ⟨j2, _, _, c4⟩ := c3.star_inv (by intro c hc; simp at hc; subst hc; decide)
+    obtain ⟨x, t, hx, hxd, _⟩ := c4.one_inv
+    cases hw : w1.drop j2 with
+    | nil =>
+      rw [hw, List.nil_append] at hx
+      have hxe : x = '=' := (List.cons.inj hx).1.symm
+      subst hxe
+      revert hxd; decide
+    | cons y ys =>
+      rw [hw, List.cons_append] at hx
+      have hxe : x = y := (List.cons.inj hx).1.symm
+      subst hxe
+      have hmem : x ∈ w1.drop j2 := by rw [hw]; simp
+      rw [lemma_ws_not_quote _ (hw1 _ (List.mem_of_mem_drop hmem))] at hxd; cases hxd
+  | cons d ds' =>
+    have hdm' : d ∈ ds.drop j := by rw [hd]; simp
+    have hdm : d ∈ ds := List.mem_of_mem_drop hdm'
+    rw [hd] at c3
+    -- `\s+` needs a whitespace character but a digit follows
+    obtain ⟨seg, t, heq, hseg, hlo, _, _⟩ := lemma_Consumes_cons_inv c3
+    cases seg with
+    | nil => simp at hlo
+    | cons y ys =>
+      have hy : d = y := by
+        have := congrArg List.head? heq
+        simpa using this
+      subst hy
+      have := hseg d (by simp)
+      rw [lemma_digit_not_ws _ (hds _ hdm)] at this
+      cases this
+
+
+/-- the patterns that need a quote before the key (`"key":…`, `"…key":…`, `'…key', '--flag', …`, WILDCARD) cannot
+    match when the only occurrence of the key is preceded by text without quotes -/
+theorem lemma_nomatch_quote_before_key (p : Pattern) (K M pre R : List Char) (hM : M = pre ++ R)
+    (hu : UniqueAt K M pre.length) (hpreq : ∀ c ∈ pre, quoteC.test c = false)
+    (hg1 : (∃ rest, p.g1 = ⟨quoteC, 1, some 1⟩ :: (keyItems K ++ rest)) ∨
+           (∃ rest, p.g1 = ⟨quoteC, 1, some 1⟩ :: ⟨nquoteC, 0, none⟩ :: (keyItems K ++ rest)))
+    (a b : List Char) (hab : M = a ++ b) : matchPat p b = none := by
+  cases hm : matchPat p b with
+  | none => rfl
+  | some bd =>
+    exfalso
+    obtain ⟨s1, s2, s3, c1, _, _, _⟩ := matchPat_some _ _ _ hm
+    rcases hg1 with ⟨rest, hg⟩ | ⟨rest, hg⟩
+    · rw [hg] at c1
+      obtain ⟨x, b', hb, hx, c2⟩ := c1.one_inv
+      obtain ⟨hk, _⟩ := lemma_Consumes_keyItems_inv _ K b' s1 c2
+      have hlen : (a ++ [x]).length = pre.length := hu (a ++ [x]) b' (by rw [hab, hb]; simp) hk
+      have hpre : pre = a ++ [x] := by
+        have h1 : pre ++ R = (a ++ [x]) ++ b' := by rw [← hM, hab, hb]; simp
+        exact List.append_inj_left h1 hlen.symm
+      have := hpreq x (by rw [hpre]; simp)
+      rw [hx] at this; cases this
+    · rw [hg] at c1
+      obtain ⟨x, b', hb, hx, c2⟩ := c1.one_inv
+      obtain ⟨seg, b2, hb2, _, _, _, c3⟩ := lemma_Consumes_cons_inv c2
+      obtain ⟨hk, _⟩ := lemma_Consumes_keyItems_inv _ K b2 s1 c3
+      have hlen : (a ++ x :: seg).length = pre.length :=
+        hu (a ++ x :: seg) b2 (by rw [hab, hb, hb2]; simp) hk
+      have hpre : pre = a ++ x :: seg := by
+        have h1 : pre ++ R = (a ++ x :: seg) ++ b2 := by rw [← hM, hab, hb, hb2]; simp
+        exact List.append_inj_left h1 hlen.symm
+      have := hpreq x (by rw [hpre]; simp)
+      rw [hx] at this; cases this
+
+theorem lemma_Consumes_nil_inv {s s' : List Char} (h : Consumes [] s s') : s = s' := by
+  cases h; rfl
+
+theorem lemma_digit_not_eq (c : Char) (h : digitC.test c = true) : eqC.test c = false := by
+  simp only [digitC, eqC, cls, Cls.test, inRanges] at h ⊢
+  simp at h ⊢
+  omega
+
+theorem lemma_ws_not_eq (c : Char) (h : wsC.test c = true) : eqC.test c = false := by
+  simp only [wsC, eqC, cls, Cls.test, Gen.wsRanges, inRanges] at h ⊢
+  simp at h ⊢
+  omega
+
+theorem lemma_ws_not_bare (c : Char) (h : wsC.test c = true) : bareC.test c = false := by
+  cases hb : bareC.test c with
+  | false => rfl
+  | true => rw [lemma_bare_not_ws c hb] at h; cases h
+
+theorem lemma_quote_not_bare (c : Char) (h : quoteC.test c = true) : bareC.test c = false := by
+  cases hb : bareC.test c with
+  | false => rfl
+  | true => rw [lemma_bare_not_quote c hb] at h; cases h
+
+/-- the bare pattern `key=value` cannot match where a quote follows `=` -/
+theorem lemma_nomatch_bare_on_quoted (K K' ds w1 w2 Y s1 s2 : List Char) (q : Char) (hK : keyMatch K K' = true)
+    (hds : ∀ c ∈ ds, digitC.test c = true) (hw1 : ∀ c ∈ w1, wsC.test c = true)
+    (hw2 : ∀ c ∈ w2, wsC.test c = true) (hq : quoteC.test q = true)
+    (c1 : Consumes (instItems (keyItems K) tplEqBare.g1) (K' ++ (ds ++ (w1 ++ ('=' :: (w2 ++ (q :: Y)))))) s1)
+    (cm : Consumes (instItems (keyItems K) tplEqBare.mid) s1 s2) : False := by
+  simp only [tplEqBare, instItems, one, star, plus] at c1 cm
+  obtain ⟨_, c2⟩ := lemma_Consumes_keyItems_inv _ K _ s1 c1
+  rw [← keyMatch_length K K' hK, List.drop_left] at c2
+  obtain ⟨j, _, _, c3⟩ := c2.star_inv (by
+    apply head_append_of_all _ w1 _ (fun c hc => lemma_ws_not_digit c (hw1 c hc))
+    intro c hc; simp at hc; subst hc; decide)
+  cases hd : ds.drop j with
+  | cons d ds' =>
+    have hdm' : d ∈ ds.drop j := by rw [hd]; simp
+    have hdm : d ∈ ds := List.mem_of_mem_drop hdm'
+    rw [hd] at c3
+    obtain ⟨j2, _, hj2, c4⟩ := Consumes.star_inv (r := []) (t := d :: ds' ++ (w1 ++ '=' :: (w2 ++ q :: Y))) c3 (by
+      intro c hc; simp at hc; subst hc; exact lemma_digit_not_ws _ (hds _ hdm))
+    have : j2 = 0 := by simpa using hj2
+    subst this
+    obtain ⟨x, t, hx, hxd, _⟩ := c4.one_inv
+    simp at hx
+    rw [← hx.1, lemma_digit_not_eq _ (hds _ hdm)] at hxd; cases hxd
+  | nil =>
+    rw [hd, List.nil_append] at c3
+    obtain ⟨j2, _, _, c4⟩ := c3.star_inv (by intro c hc; simp at hc; subst hc; decide)
+    obtain ⟨x, t, hx, hxd, c5⟩ := c4.one_inv
+    cases hw : w1.drop j2 with
+    | cons y ys =>
+      rw [hw, List.cons_append] at hx
+      have hxe : x = y := (List.cons.inj hx).1.symm
+      subst hxe
+      have hmem : x ∈ w1.drop j2 := by rw [hw]; simp
+      rw [lemma_ws_not_eq _ (hw1 _ (List.mem_of_mem_drop hmem))] at hxd; cases hxd
+    | nil =>
+      rw [hw, List.nil_append] at hx
+      have ht : t = w2 ++ (q :: Y) := (List.cons.inj hx).2.symm
+      subst ht
+      obtain ⟨j3, _, _, c6⟩ := c5.star_inv (by intro c hc; simp at hc; subst hc; exact lemma_quote_not_ws q hq)
+      have hs1 := lemma_Consumes_nil_inv c6
+      subst hs1
+      obtain ⟨seg, t2, heq, hseg, hlo, _, _⟩ := lemma_Consumes_cons_inv cm
+      cases seg with
+      | nil => simp at hlo
+      | cons z zs =>
+        have hz := hseg z (by simp)
+        cases hw2d : w2.drop j3 with
+        | nil =>
+          rw [hw2d] at heq
+          have : q = z := by
+            have := congrArg List.head? heq
+            simpa using this
+          subst this
+          rw [lemma_quote_not_bare _ hq] at hz; cases hz
+        | cons y ys =>
+          rw [hw2d] at heq
+          have : y = z := by
+            have := congrArg List.head? heq
+            simpa using this
+          subst this
+          have hmem : y ∈ w2.drop j3 := by rw [hw2d]; simp
+          rw [lemma_ws_not_bare _ (hw2 _ (List.mem_of_mem_drop hmem))] at hz; cases hz
+
+
+/-! ### assembling `key = "value"` -/
+
+theorem lemma_sub_missing (t : Template) (qc : Cls) (rep : List RepTok) (ki : List Item) (mask M : List Char)
+    (hq : one qc ∈ t.g1) (hM : ∀ c ∈ M, qc.test c = false) : subPat (t.inst ki) rep mask M = M := by
+  unfold subPat
+  apply subAux_none
+  intro j _
+  apply matchRepl_none
+  apply matchPat_none_of_missing _ _ ⟨qc, 1, some 1⟩
+  · simp only [Template.inst]
+    exact List.mem_append_left _ (lemma_instItems_mem ki _ t.g1 hq)
+  · exact Nat.le_refl 1
+  · intro c hc
+    exact hM c (List.mem_of_mem_drop hc)
+
+theorem lemma_sub_none_of (p : Pattern) (rep : List RepTok) (mask M : List Char)
+    (h : ∀ a b, M = a ++ b → matchPat p b = none) : subPat p rep mask M = M := by
+  unfold subPat
+  apply subAux_none
+  intro j _
+  apply matchRepl_none
+  exact h _ _ (List.take_append_drop j M).symm
+
+theorem lemma_unique_suffix (K M pre R a b : List Char) (hM : M = pre ++ R) (hu : UniqueAt K M pre.length)
+    (hab : M = a ++ b) (hk : keyPrefix K b = true) : b = R := by
+  have hlen := hu a b hab hk
+  have h1 : pre ++ R = a ++ b := by rw [← hM, hab]
+  exact (List.append_inj_right h1 hlen.symm).symm
+
+theorem lemma_pre_noKey (K pre R : List Char)
+    (hu : ∀ j, j ≤ (pre ++ R).length → keyPrefix K ((pre ++ R).drop j) = true → j = pre.length) :
+    ∀ j, j < pre.length → keyPrefix K (pre.drop j ++ R) = false := by
+  intro j hj
+  cases hk : keyPrefix K (List.drop j pre ++ R) with
+  | false => rfl
+  | true =>
+    exfalso
+    have := hu j (by simp; omega) (by rw [List.drop_append_of_le_length (by omega)]; exact hk)
+    omega
+
+theorem lemma_post_noKey (K pre mid post : List Char) (hmid : mid ≠ [])
+    (hu : ∀ j, j ≤ (pre ++ (mid ++ post)).length → keyPrefix K ((pre ++ (mid ++ post)).drop j) = true →
+      j = pre.length) : occursCI K post = false := by
+  cases ho : occursCI K post with
+  | false => rfl
+  | true =>
+    exfalso
+    obtain ⟨j, hj, hk⟩ := lemma_occursCI_exists K post ho
+    have hd : List.drop (pre.length + (mid.length + j)) (pre ++ (mid ++ post)) = post.drop j := by
+      rw [← List.drop_drop, List.drop_left, ← List.drop_drop, List.drop_left]
+    have := hu (pre.length + (mid.length + j))
+      (by simp only [List.length_append]; omega) (by rw [hd]; exact hk)
+    have hml : 0 < mid.length := by
+      cases mid with
+      | nil => exact absurd rfl hmid
+      | cons x xs => simp
+    omega
+
+/-- the `if key in message.lower():` body on `key = "value"` / `key = 'value'` (same quote on both sides) -/
+theorem lemma_applyKey_eq_quoted (K K' ds w1 w2 secret pre post mask : List Char) (q : Char)
+    (hK : keyMatch K K' = true) (hds : ∀ c ∈ ds, digitC.test c = true) (hw1 : ∀ c ∈ w1, wsC.test c = true)
+    (hw2 : ∀ c ∈ w2, wsC.test c = true) (hq : q = '"' ∨ q = '\'')
+    (hsecV : ∀ c ∈ secret, nquoteC.test c = true)
+    (hKq : ∀ c ∈ K', quoteC.test c = false)
+    (hpreq : ∀ c ∈ pre, quoteC.test c = false) (hpostq : ∀ c ∈ post, quoteC.test c = false)
+    (hmaskq : ∀ c ∈ mask, quoteC.test c = false)
+    (hlast : ∀ c, pre.getLast? = some c → dashC.test c = false)
+    (hu : ∀ j, j ≤ (pre ++ (K' ++ ds ++ w1 ++ ['='] ++ w2 ++ [q] ++ secret ++ [q] ++ post)).length →
+      keyPrefix K ((pre ++ (K' ++ ds ++ w1 ++ ['='] ++ w2 ++ [q] ++ secret ++ [q] ++ post)).drop j) = true →
+      j = pre.length)
+    (hu' : ∀ j, j ≤ (pre ++ (K' ++ ds ++ w1 ++ ['='] ++ w2 ++ [q] ++ mask ++ [q] ++ post)).length →
+      keyPrefix K ((pre ++ (K' ++ ds ++ w1 ++ ['='] ++ w2 ++ [q] ++ mask ++ [q] ++ post)).drop j) = true →
+      j = pre.length) :
+    applyKey K mask (pre ++ (K' ++ ds ++ w1 ++ ['='] ++ w2 ++ [q] ++ secret ++ [q] ++ post))
+      = pre ++ (K' ++ ds ++ w1 ++ ['='] ++ w2 ++ [q] ++ mask ++ [q] ++ post) := by
+  have hqq : quoteC.test q = true := by rcases hq with rfl | rfl <;> decide
+  have hU' := lemma_uniqueAt_of_drop K _ _ hu'
+  have hmaskV : ∀ c ∈ mask, nquoteC.test c = true := by
+    intro c hc
+    have := hmaskq c hc
+    simp only [quoteC, nquoteC, cls, ncls, Cls.test] at this ⊢
+    simpa using this
+  -- shapes
+  have eM : K' ++ ds ++ w1 ++ ['='] ++ w2 ++ [q] ++ secret ++ [q] ++ post
+      = (K' ++ ds ++ w1 ++ ['='] ++ w2 ++ [q] ++ secret ++ [q]) ++ post := by simp
+  have eM' : K' ++ ds ++ w1 ++ ['='] ++ w2 ++ [q] ++ mask ++ [q] ++ post
+      = (K' ++ ds ++ w1 ++ ['='] ++ w2 ++ [q] ++ mask ++ [q]) ++ post := by simp
+  have eR' : K' ++ ds ++ w1 ++ ['='] ++ w2 ++ [q] ++ mask ++ [q] ++ post
+      = K' ++ (ds ++ (w1 ++ ('=' :: (w2 ++ (q :: (mask ++ q :: post)))))) := by simp
+  have hpostK : occursCI K post = false :=
+    lemma_post_noKey K pre (K' ++ ds ++ w1 ++ ['='] ++ w2 ++ [q] ++ secret ++ [q]) post (by simp)
+      (by rw [← eM]; exact hu)
+  have hpostK' : occursCI K post = false := hpostK
+  -- P2[0]
+  have h0 := sub_rendering_eq_quoted K K' ds w1 w2 secret pre post mask q q hK hds hw1 hw2 hqq hqq hsecV
+    (lemma_pre_noKey K pre _ hu) hpostK
+  -- the two single-quote-kind patterns on the masked message
+  have h12 : subPat (tplEqSq.inst (keyItems K)) rep2 mask (subPat (tplEqDq.inst (keyItems K)) rep2 mask
+      (pre ++ (K' ++ ds ++ w1 ++ ['='] ++ w2 ++ [q] ++ mask ++ [q] ++ post)))
+      = pre ++ (K' ++ ds ++ w1 ++ ['='] ++ w2 ++ [q] ++ mask ++ [q] ++ post) := by
+    have hparts : ∀ (qc : Cls), (∀ c, quoteC.test c = false → qc.test c = false) → qc.test q = false →
+        ∀ c ∈ pre ++ (K' ++ ds ++ w1 ++ ['='] ++ w2 ++ [q] ++ mask ++ [q] ++ post), qc.test c = false := by
+      intro qc hqc hqn c hc
+      simp only [List.mem_append, List.mem_cons, List.not_mem_nil, or_false] at hc
+      rcases hc with h | ((((((((h | h) | h) | h) | h) | h) | h) | h) | h)
+      · exact hqc c (hpreq c h)
+      · exact hqc c (hKq c h)
+      · exact hqc c (lemma_digit_not_quote c (hds c h))
+      · exact hqc c (lemma_ws_not_quote c (hw1 c h))
+      · subst h; exact hqc _ (by decide)
+      · exact hqc c (lemma_ws_not_quote c (hw2 c h))
+      · subst h; exact hqn
+      · exact hqc c (hmaskq c h)
+      · subst h; exact hqn
+      · exact hqc c (hpostq c h)
+    rcases hq with rfl | rfl
+    · -- double quotes: the `"` pattern re-masks the mask, the `'` pattern has no `'` to start from
+      have hd := mask_rendering_eq_dquoted_partial K K' ds w1 w2 mask pre post mask hK hds hw1 hw2
+        (by intro c hc
+            have := hmaskq c hc
+            simp only [quoteC, ndqC, cls, ncls, Cls.test, inRanges] at this ⊢
+            simp at this ⊢; omega)
+        (lemma_pre_noKey K pre _ hu') hpostK
+      rw [hd]
+      exact lemma_sub_missing tplEqSq sqC rep2 _ mask _ (by simp [tplEqSq]) (hparts sqC lemma_noquote_sq (by decide))
+    · have hs := mask_rendering_eq_squoted_partial K K' ds w1 w2 mask pre post mask hK hds hw1 hw2
+        (by intro c hc
+            have := hmaskq c hc
+            simp only [quoteC, nsqC, cls, ncls, Cls.test, inRanges] at this ⊢
+            simp at this ⊢; omega)
+        (lemma_pre_noKey K pre _ hu') hpostK
+      rw [lemma_sub_missing tplEqDq dqC rep2 _ mask _ (by simp [tplEqDq]) (hparts dqC lemma_noquote_dq (by decide))]
+      exact hs
+  -- positional patterns on the masked message
+  have hkq : subPat (tplKeyQuoted.inst (keyItems K)) rep2 mask
+      (pre ++ (K' ++ ds ++ w1 ++ ['='] ++ w2 ++ [q] ++ mask ++ [q] ++ post))
+      = pre ++ (K' ++ ds ++ w1 ++ ['='] ++ w2 ++ [q] ++ mask ++ [q] ++ post) := by
+    apply lemma_sub_none_of
+    intro a b hab
+    cases hm : matchPat (tplKeyQuoted.inst (keyItems K)) b with
+    | none => rfl
+    | some bd =>
+      exfalso
+      obtain ⟨s1, s2, s3, c1, _, _, _⟩ := matchPat_some _ _ _ hm
+      simp only [Template.inst] at c1
+      have hkp : keyPrefix K b = true := by
+        have c1' := c1
+        simp only [tplKeyQuoted, instItems] at c1'
+        exact (lemma_Consumes_keyItems_inv _ K _ s1 c1').1
+      have hb := lemma_unique_suffix K _ pre _ a b rfl hU' hab hkp
+      rw [hb, eR'] at c1
+      exact lemma_nomatch_keyquoted_eq K K' ds w1 _ s1 hK hds hw1 c1
+  have hdash : subPat (tplDashDash.inst (keyItems K)) rep2 mask
+      (pre ++ (K' ++ ds ++ w1 ++ ['='] ++ w2 ++ [q] ++ mask ++ [q] ++ post))
+      = pre ++ (K' ++ ds ++ w1 ++ ['='] ++ w2 ++ [q] ++ mask ++ [q] ++ post) :=
+    lemma_sub_none_of _ _ _ _ (fun a b hab => lemma_nomatch_dashdash K _ pre _ rfl hU' hlast a b hab)
+  have hxml : subPat (tplXml.inst (keyItems K)) rep2 mask
+      (pre ++ (K' ++ ds ++ w1 ++ ['='] ++ w2 ++ [q] ++ mask ++ [q] ++ post))
+      = pre ++ (K' ++ ds ++ w1 ++ ['='] ++ w2 ++ [q] ++ mask ++ [q] ++ post) :=
+    lemma_sub_none_of _ _ _ _ (fun a b hab => lemma_nomatch_xml K _ _ hU' a b hab)
+  have hcolon : ∀ (t : Template) (rp : List RepTok),
+      ((∃ rest, (t.inst (keyItems K)).g1 = ⟨quoteC, 1, some 1⟩ :: (keyItems K ++ rest)) ∨
+       (∃ rest, (t.inst (keyItems K)).g1 = ⟨quoteC, 1, some 1⟩ :: ⟨nquoteC, 0, none⟩ :: (keyItems K ++ rest))) →
+      subPat (t.inst (keyItems K)) rp mask (pre ++ (K' ++ ds ++ w1 ++ ['='] ++ w2 ++ [q] ++ mask ++ [q] ++ post))
+        = pre ++ (K' ++ ds ++ w1 ++ ['='] ++ w2 ++ [q] ++ mask ++ [q] ++ post) := by
+    intro t rp hg
+    exact lemma_sub_none_of _ _ _ _
+      (fun a b hab => lemma_nomatch_quote_before_key _ K _ pre _ rfl hU' hpreq hg a b hab)
+  have hflag : subPat (tplCmdFlag.inst (keyItems K)) rep2 mask
+      (pre ++ (K' ++ ds ++ w1 ++ ['='] ++ w2 ++ [q] ++ mask ++ [q] ++ post))
+      = pre ++ (K' ++ ds ++ w1 ++ ['='] ++ w2 ++ [q] ++ mask ++ [q] ++ post) := by
+    apply lemma_sub_none_of
+    intro a b hab
+    cases hm : matchPat (tplCmdFlag.inst (keyItems K)) b with
+    | none => rfl
+    | some bd =>
+      exfalso
+      obtain ⟨s1, s2, s3, c1, _, _, _⟩ := matchPat_some _ _ _ hm
+      simp only [Template.inst] at c1
+      have hkp : keyPrefix K b = true := by
+        have c1' := c1
+        simp only [tplCmdFlag, instItems] at c1'
+        exact (lemma_Consumes_keyItems_inv _ K _ s1 c1').1
+      have hb := lemma_unique_suffix K _ pre _ a b rfl hU' hab hkp
+      rw [hb, eR'] at c1
+      exact lemma_nomatch_cmdflag_eq K K' ds w1 _ s1 hK hds hw1 c1
+  have hbare : subPat (tplEqBare.inst (keyItems K)) rep1 mask
+      (pre ++ (K' ++ ds ++ w1 ++ ['='] ++ w2 ++ [q] ++ mask ++ [q] ++ post))
+      = pre ++ (K' ++ ds ++ w1 ++ ['='] ++ w2 ++ [q] ++ mask ++ [q] ++ post) := by
+    apply lemma_sub_none_of
+    intro a b hab
+    cases hm : matchPat (tplEqBare.inst (keyItems K)) b with
+    | none => rfl
+    | some bd =>
+      exfalso
+      obtain ⟨s1, s2, s3, c1, cm, _, _⟩ := matchPat_some _ _ _ hm
+      simp only [Template.inst] at c1 cm
+      have hkp : keyPrefix K b = true := by
+        have c1' := c1
+        simp only [tplEqBare, instItems] at c1'
+        exact (lemma_Consumes_keyItems_inv _ K _ s1 c1').1
+      have hb := lemma_unique_suffix K _ pre _ a b rfl hU' hab hkp
+      rw [hb, eR'] at c1
+      exact lemma_nomatch_bare_on_quoted K K' ds w1 w2 _ s1 s2 q hK hds hw1 hw2 hqq c1 cm
+  unfold applyKey
+  rw [templates_as_reviewed.1, templates_as_reviewed.2.1, templates_as_reviewed.2.2.1]
+  simp only [subAll, List.foldl]
+  rw [h0, h12, hkq, hdash, hxml,
+      hcolon tplColonQuoted rep2 (Or.inl ⟨_, by simp [tplColonQuoted, Template.inst, instItems, one]; rfl⟩),
+      hcolon tplColonPrefixed rep2 (Or.inr ⟨_, by simp [tplColonPrefixed, Template.inst, instItems, one, star]; rfl⟩),
+      hcolon tplCmdList rep2 (Or.inr ⟨_, by simp [tplCmdList, Template.inst, instItems, one, star]; rfl⟩),
+      hflag, hbare,
+      hcolon tplWildcard repW (Or.inr ⟨_, by simp [tplWildcard, Template.inst, instItems, one, star]; rfl⟩)]
+
+
+/-- **`mask_password` on `key = "value"` / `key = 'value'`.**  For every key `K` of the generated list, every
+spelling `K'` whose lower-casing is `K`, any digit suffix and whitespace around `=`, either quote kind (the same
+on both sides), every secret over the value class of the generated template (`[^"']*`: the empty secret, spaces,
+Unicode whitespace, `=`, `<`, `-`, regex metacharacters, non-ASCII … included), every mask without quote
+characters, neutral surroundings: `mask_password` returns the message with exactly the value replaced by the
+mask.  All twelve patterns of `K` are accounted for (the first replaces the value, the pattern of the same quote
+kind re-masks the mask to itself, the other ten do not match) and so is the loop over all 35 keys.
+
+`_partial` — what is missing with respect to the property:
+* *single key*: no other sanitize key occurs in the lower-cased message, before or after masking (keys that
+  contain another key and messages with several secrets are not covered by this theorem);
+* the key (as the patterns read it) occurs only at the rendering, before and after masking (`hu`, `hu'`: the
+  exclusion of the listed class KF_C04_NESTED);
+* opening and closing quote are the same character; neutral surroundings are stronger than the patterns need
+  (no quote character in prefix, suffix or mask; the prefix does not end with `-`). -/
+theorem mask_rendering_eq_quoted_partial (K K' ds w1 w2 secret pre post mask : List Char) (q : Char)
+    (hKmem : K ∈ Gen.sanitizeKeys) (hK : keyMatch K K' = true) (hlow : pyLower K' = K)
+    (hds : ∀ c ∈ ds, digitC.test c = true) (hw1 : ∀ c ∈ w1, wsC.test c = true)
+    (hw2 : ∀ c ∈ w2, wsC.test c = true) (hq : q = '"' ∨ q = '\'')
+    (hsecV : ∀ c ∈ secret, nquoteC.test c = true)
+    (hpreq : ∀ c ∈ pre, quoteC.test c = false) (hpostq : ∀ c ∈ post, quoteC.test c = false)
+    (hmaskq : ∀ c ∈ mask, quoteC.test c = false)
+    (hlast : ∀ c, pre.getLast? = some c → dashC.test c = false)
+    (hu : ∀ j, j ≤ (pre ++ (K' ++ ds ++ w1 ++ ['='] ++ w2 ++ [q] ++ secret ++ [q] ++ post)).length →
+      keyPrefix K ((pre ++ (K' ++ ds ++ w1 ++ ['='] ++ w2 ++ [q] ++ secret ++ [q] ++ post)).drop j) = true →
+      j = pre.length)
+    (hu' : ∀ j, j ≤ (pre ++ (K' ++ ds ++ w1 ++ ['='] ++ w2 ++ [q] ++ mask ++ [q] ++ post)).length →
+      keyPrefix K ((pre ++ (K' ++ ds ++ w1 ++ ['='] ++ w2 ++ [q] ++ mask ++ [q] ++ post)).drop j) = true →
+      j = pre.length)
+    (hother : ∀ k ∈ Gen.sanitizeKeys, k ≠ K →
+      isInfix k (pyLower (pre ++ (K' ++ ds ++ w1 ++ ['='] ++ w2 ++ [q] ++ secret ++ [q] ++ post))) = false ∧
+      isInfix k (pyLower (pre ++ (K' ++ ds ++ w1 ++ ['='] ++ w2 ++ [q] ++ mask ++ [q] ++ post))) = false) :
+    maskPassword (pre ++ (K' ++ ds ++ w1 ++ ['='] ++ w2 ++ [q] ++ secret ++ [q] ++ post)) mask
+      = pre ++ (K' ++ ds ++ w1 ++ ['='] ++ w2 ++ [q] ++ mask ++ [q] ++ post) := by
+  unfold maskPassword maskWith
+  apply lemma_fold_single mask _ _ K Gen.sanitizeKeys lemma_keys_nodup hKmem
+  · have hkt : isInfix K (pyLower (pre ++ (K' ++ ds ++ w1 ++ ['='] ++ w2 ++ [q] ++ secret ++ [q] ++ post))) = true := by
+      have e : K' ++ ds ++ w1 ++ ['='] ++ w2 ++ [q] ++ secret ++ [q] ++ post
+          = K' ++ (ds ++ w1 ++ ['='] ++ w2 ++ [q] ++ secret ++ [q] ++ post) := by simp
+      rw [e]; exact lemma_keytest K K' pre _ hlow
+    simp only [maskStep, hkt, if_true]
+    exact lemma_applyKey_eq_quoted K K' ds w1 w2 secret pre post mask q hK hds hw1 hw2 hq hsecV
+      (lemma_keyMatch_no_quote K K' (lemma_keys_no_quote K hKmem) hK) hpreq hpostq hmaskq hlast hu hu'
+  · intro k hk hne
+    obtain ⟨h1, h2⟩ := hother k hk hne
+    exact ⟨by simp only [maskStep, h1, Bool.false_eq_true, if_false],
+           by simp only [maskStep, h2, Bool.false_eq_true, if_false]⟩
+
+/-- non-vacuity of `mask_rendering_eq_quoted_partial` (secret with spaces, Unicode whitespace, `=`, `<`, `-`, regex
+    metacharacters and a non-ASCII case-fold character; upper-case key) -/
+example :
+    let K := "token".toList; let K' := "TOKEN".toList; let ds := "7".toList
+    let w1 : List Char := []; let w2 := " ".toList; let secret := "a b\u2003=<c>-.*ſ".toList
+    let pre := "GET /v3 user=x ".toList; let post := " done".toList; let mask := "***".toList; let q := '\''
+    K ∈ Gen.sanitizeKeys ∧ keyMatch K K' = true ∧ pyLower K' = K ∧
+    (∀ c ∈ ds, digitC.test c = true) ∧ (∀ c ∈ w1, wsC.test c = true) ∧ (∀ c ∈ w2, wsC.test c = true) ∧
+    (q = '"' ∨ q = '\'') ∧ (∀ c ∈ secret, nquoteC.test c = true) ∧
+    (∀ c ∈ pre, quoteC.test c = false) ∧ (∀ c ∈ post, quoteC.test c = false) ∧ (∀ c ∈ mask, quoteC.test c = false) ∧
+    (∀ c, pre.getLast? = some c → dashC.test c = false) ∧
+    (∀ j, j ≤ (pre ++ (K' ++ ds ++ w1 ++ ['='] ++ w2 ++ [q] ++ secret ++ [q] ++ post)).length →
+      keyPrefix K ((pre ++ (K' ++ ds ++ w1 ++ ['='] ++ w2 ++ [q] ++ secret ++ [q] ++ post)).drop j) = true →
+      j = pre.length) ∧
+    (∀ j, j ≤ (pre ++ (K' ++ ds ++ w1 ++ ['='] ++ w2 ++ [q] ++ mask ++ [q] ++ post)).length →
+      keyPrefix K ((pre ++ (K' ++ ds ++ w1 ++ ['='] ++ w2 ++ [q] ++ mask ++ [q] ++ post)).drop j) = true →
+      j = pre.length) ∧
+    (∀ k ∈ Gen.sanitizeKeys, k ≠ K →
+      isInfix k (pyLower (pre ++ (K' ++ ds ++ w1 ++ ['='] ++ w2 ++ [q] ++ secret ++ [q] ++ post))) = false ∧
+      isInfix k (pyLower (pre ++ (K' ++ ds ++ w1 ++ ['='] ++ w2 ++ [q] ++ mask ++ [q] ++ post))) = false) := by
+  decide +kernel
+
+/-- masking an already masked `key = "***"` message changes nothing (`mask_password` as a whole; same
+    restrictions as `mask_rendering_eq_quoted_partial`) -/
+theorem mask_idempotent_on_masked_eq_quoted_partial (K K' ds w1 w2 pre post mask : List Char) (q : Char)
+    (hKmem : K ∈ Gen.sanitizeKeys) (hK : keyMatch K K' = true) (hlow : pyLower K' = K)
+    (hds : ∀ c ∈ ds, digitC.test c = true) (hw1 : ∀ c ∈ w1, wsC.test c = true)
+    (hw2 : ∀ c ∈ w2, wsC.test c = true) (hq : q = '"' ∨ q = '\'')
+    (hpreq : ∀ c ∈ pre, quoteC.test c = false) (hpostq : ∀ c ∈ post, quoteC.test c = false)
+    (hmaskq : ∀ c ∈ mask, quoteC.test c = false)
+    (hlast : ∀ c, pre.getLast? = some c → dashC.test c = false)
+    (hu : ∀ j, j ≤ (pre ++ (K' ++ ds ++ w1 ++ ['='] ++ w2 ++ [q] ++ mask ++ [q] ++ post)).length →
+      keyPrefix K ((pre ++ (K' ++ ds ++ w1 ++ ['='] ++ w2 ++ [q] ++ mask ++ [q] ++ post)).drop j) = true →
+      j = pre.length)
+    (hother : ∀ k ∈ Gen.sanitizeKeys, k ≠ K →
+      isInfix k (pyLower (pre ++ (K' ++ ds ++ w1 ++ ['='] ++ w2 ++ [q] ++ mask ++ [q] ++ post))) = false) :
+    maskPassword (pre ++ (K' ++ ds ++ w1 ++ ['='] ++ w2 ++ [q] ++ mask ++ [q] ++ post)) mask
+      = pre ++ (K' ++ ds ++ w1 ++ ['='] ++ w2 ++ [q] ++ mask ++ [q] ++ post) :=
+  mask_rendering_eq_quoted_partial K K' ds w1 w2 mask pre post mask q hKmem hK hlow hds hw1 hw2 hq
+    (by intro c hc
+        have := hmaskq c hc
+        simp only [quoteC, nquoteC, cls, ncls, Cls.test] at this ⊢
+        simpa using this)
+    hpreq hpostq hmaskq hlast hu hu (fun k hk hne => ⟨hother k hk hne, hother k hk hne⟩)
+
+/-! ### the listed findings, reproduced by the model on their witnesses -/
+
+/-- KF_C04_WILDCARD, reproduced by the model: the greedy `.*` of the WILDCARD pattern deletes `bob"` -/
+theorem known_finding_wildcard_witness :
+    maskPassword "{\"password\": \"abc\", \"user\": \"bob\"}".toList "***".toList
+      = "{\"password\": \"***\", \"user\": \"}".toList := by decide +kernel
+
+/-- KF_C04_FLAGVALUE, reproduced by the model: `-b` is taken for a flag by the earlier key `password` -/
+theorem known_finding_flagvalue_witness :
+    maskPassword "--admin_password -b T".toList "***".toList = "--admin_password *** ***".toList := by
+  decide +kernel
+
+/-- KF_C04_NESTED, reproduced by the model: the value `token=b` is taken for a rendering of `token` -/
+theorem known_finding_nested_witness :
+    maskPassword "<sslkey>token=b</sslkey>".toList "***".toList = "<sslkey>token=***".toList := by
+  decide +kernel
+
+/-! ### non-vacuity: each rendering theorem's hypotheses on a concrete message, and the whole model on it -/
+
+example : maskPassword "login PASSWORD = 'p w=<d>' ok".toList "***".toList
+    = "login PASSWORD = '***' ok".toList := by decide +kernel
+example : maskPassword "run --Token9 \t a+b(c)[d] next".toList "???".toList
+    = "run --Token9 \t ??? next".toList := by decide +kernel
+example : maskPassword "<AdminPass>it's \"x\" = y</adminpass2> tail".toList "#".toList
+    = "<AdminPass>#</adminpass2> tail".toList := by decide +kernel
+example : maskPassword "{'original_password' : u'a b=c'}".toList "***".toList
+    = "{'original_password' : u'***'}".toList := by decide +kernel
+example : maskPassword "['nova', 'boot', '--secret_uuid', '--x', 'p$^w']".toList "***".toList
+    = "['nova', 'boot', '--secret_uuid', '--x', '***']".toList := by decide +kernel
+example : maskPassword "cmd sys_pswd --value s3cr3t! rest".toList "***".toList
+    = "cmd sys_pswd --value *** rest".toList := by decide +kernel
+example : maskPassword "fernetkey \"abc def\" x".toList "***".toList = "fernetkey \"***\" x".toList := by
+  decide +kernel
+
+example :
+    let K := "token".toList; let K' := "ToKen".toList
+    keyMatch K K' = true ∧ keyMatch K "toKen".toList = true ∧ keyMatch "secret".toList "ſecret".toList = true ∧
+    (∀ c ∈ "a b=<c>".toList, nquoteC.test c = true) ∧ (∀ c ∈ "it's \"x\"".toList, nltC.test c = true) ∧
+    (∀ c ∈ "a+b(c)[d]".toList, dashValC.test c = true) ∧ (∀ c ∈ "s3cr3t!".toList, nwsC.test c = true) ∧
+    (∀ c ∈ "valueX_`".toList, flagC.test c = true) ∧ quoteC.test '"' = true ∧ quoteC.test '\'' = true := by
+  decide
+
 end Oslo.Mask
